@@ -1,7 +1,6 @@
 package rules
 
 import (
-	"go/ast"
 	"go/constant"
 	"go/token"
 	"go/types"
@@ -9,7 +8,6 @@ import (
 	"sort"
 	"strings"
 
-	"golang.org/x/tools/go/packages"
 	"golang.org/x/tools/go/ssa"
 
 	"charonverif/internal/an"
@@ -20,7 +18,7 @@ func init() {
 	Register(&Prop{
 		ID: "C12",
 		Decides: "package cluster / cmd/combine: (L1) every field of Definition/Operator/Creator/ValidatorAddresses/Lock/DistValidator/DepositData/BuilderRegistration/Registration " +
-			"carries a hash tag, and every field whose tag is not `-` flows into an SSZ hasher call in the current-version hash functions, on the configOnly edge its config_hash tag states; " +
+			"carries a hash tag, and every field whose tag is not `-` flows into an SSZ hasher call in the current-version hash functions, on the configOnly edge its config_hash tag states (the flag is followed through helpers, closures and negations), and the lock hash covers the definition in full; " +
 			"(L2) per format version the fields written by marshal*V* are covered by the hash function dispatched for that version (or verified by comparison/signature) and are exactly the fields restored by unmarshal*V*; " +
 			"(L3) VerifyHashes/VerifySignatures return nil only after every hash comparison and signature/share check succeeded, with the frozen early exits, and every version switch covers supportedVersions; " +
 			"(L4) Combine stores a recombined secret only after comparing its public key with the lock's validator key; (L5) the loaders ignore a verification error only under the no-verify flag; " +
@@ -38,6 +36,9 @@ const (
 )
 
 func c12(c *rt.Ctx) {
+	if sp := c.P.SSAPkg("cluster"); sp != nil {
+		defer c12CacheDrop(sp.Prog)
+	}
 	c12L1(c)
 	c12L2(c)
 	c12L3(c)
@@ -48,131 +49,6 @@ func c12(c *rt.Ctx) {
 
 // ---------------------------------------------------------------------------------------------
 // Generic helpers
-
-func c12FieldName(t types.Type, idx int) string {
-	if p, ok := t.Underlying().(*types.Pointer); ok {
-		t = p.Elem()
-	}
-	st, ok := t.Underlying().(*types.Struct)
-	if !ok || idx >= st.NumFields() {
-		return "?"
-	}
-	return st.Field(idx).Name()
-}
-
-// c12Path resolves a value to (root, field path): loads, field selections, element selections and
-// single-assignment spilled locals are looked through. ".Definition.Version", ".Validators[].PubKey".
-func c12Path(v ssa.Value) (ssa.Value, string) {
-	path := ""
-	for i := 0; i < 48; i++ {
-		v = an.Unwrap(v)
-		switch x := v.(type) {
-		case *ssa.UnOp:
-			if x.Op != token.MUL {
-				return v, path
-			}
-			v = x.X
-		case *ssa.FieldAddr:
-			path = "." + c12FieldName(x.X.Type(), x.Field) + path
-			v = x.X
-		case *ssa.Field:
-			path = "." + c12FieldName(x.X.Type(), x.Field) + path
-			v = x.X
-		case *ssa.IndexAddr:
-			path = "[]" + path
-			v = x.X
-		case *ssa.Index:
-			path = "[]" + path
-			v = x.X
-		case *ssa.Alloc:
-			src := an.UniqueStore(x)
-			if src == nil {
-				return v, path
-			}
-			v = src
-		default:
-			return v, path
-		}
-	}
-	return v, path
-}
-
-// c12From reports whether v is the value at the field path below root.
-func c12From(v, root ssa.Value, path string) bool {
-	r, p := c12Path(v)
-	return r == root && p == path
-}
-
-// c12IndexOf returns the index operand of the (single) element selection on v's path.
-func c12IndexOf(v ssa.Value) ssa.Value {
-	for i := 0; i < 48; i++ {
-		v = an.Unwrap(v)
-		switch x := v.(type) {
-		case *ssa.UnOp:
-			if x.Op != token.MUL {
-				return nil
-			}
-			v = x.X
-		case *ssa.FieldAddr:
-			v = x.X
-		case *ssa.Field:
-			v = x.X
-		case *ssa.IndexAddr:
-			return x.Index
-		case *ssa.Index:
-			return x.Index
-		case *ssa.Alloc:
-			src := an.UniqueStore(x)
-			if src == nil {
-				return nil
-			}
-			v = src
-		default:
-			return nil
-		}
-	}
-	return nil
-}
-
-// c12Result0 returns the call whose result #idx v is (through spilled locals).
-func c12ResultOf(v ssa.Value, idx int) *ssa.Call {
-	v = an.Resolve(v)
-	if ex, ok := v.(*ssa.Extract); ok && ex.Index == idx {
-		call, _ := ex.Tuple.(*ssa.Call)
-		return call
-	}
-	if call, ok := v.(*ssa.Call); ok && idx == 0 && call.Call.Signature().Results().Len() == 1 {
-		return call
-	}
-	return nil
-}
-
-// c12SliceOfResult: v is `x[:]` of a local array holding result #0 of call.
-func c12SliceOfResult(v ssa.Value, call ssa.CallInstruction) bool {
-	sl, ok := an.Unwrap(v).(*ssa.Slice)
-	if !ok || sl.Low != nil || sl.High != nil {
-		return false
-	}
-	al, ok := sl.X.(*ssa.Alloc)
-	if !ok {
-		return false
-	}
-	src := an.UniqueStore(al)
-	if src == nil {
-		return false
-	}
-	got := c12ResultOf(src, 0)
-	return got != nil && ssa.Instruction(got) == call.(ssa.Instruction)
-}
-
-func c12LenOf(v ssa.Value) ssa.Value {
-	if call, ok := an.Unwrap(v).(*ssa.Call); ok {
-		if b, ok := call.Call.Value.(*ssa.Builtin); ok && b.Name() == "len" && len(call.Call.Args) == 1 {
-			return call.Call.Args[0]
-		}
-	}
-	return nil
-}
 
 func c12ConstStr(v ssa.Value) (string, bool) {
 	k, ok := an.Unwrap(v).(*ssa.Const)
@@ -190,315 +66,9 @@ func c12ConstBool(v ssa.Value) (bool, bool) {
 	return constant.BoolVal(k.Value), true
 }
 
-// c12Br is one decided branch: blk ends in the If, fail is the successor taken when the check fails.
-type c12Br struct {
-	blk  *ssa.BasicBlock
-	fail *ssa.BasicBlock
-	pass *ssa.BasicBlock
-}
-
-// c12Status returns, per status value of call (error result and, if boolIdx >= 0, the boolean
-// result that must equal want), the branches on it that are dominated by the call.
-func c12Status(call ssa.CallInstruction, boolIdx int, want bool) ([][]c12Br, string) {
-	fn := call.Parent()
-	errs, boolv := an.StatusOf(call, boolIdx)
-	res := call.Common().Signature().Results()
-	hasErr := false
-	for i := 0; i < res.Len(); i++ {
-		if an.IsErrorType(res.At(i).Type()) {
-			hasErr = true
-		}
-	}
-	if hasErr && len(errs) == 0 {
-		return nil, "error result is discarded"
-	}
-	if boolIdx >= 0 && boolv == nil {
-		return nil, "boolean result is discarded"
-	}
-	var out [][]c12Br
-	for _, e := range errs {
-		var brs []c12Br
-		for _, cd := range an.CondsOn(fn, e) {
-			if cd.Other == nil || !an.IsNilConst(cd.Other) || !an.Dominates(call, cd.If) {
-				continue
-			}
-			switch cd.Op {
-			case token.NEQ:
-				brs = append(brs, c12Br{cd.If.Block(), cd.Succ(true), cd.Succ(false)})
-			case token.EQL:
-				brs = append(brs, c12Br{cd.If.Block(), cd.Succ(false), cd.Succ(true)})
-			}
-		}
-		if len(brs) == 0 {
-			return nil, "error result is never compared with nil"
-		}
-		out = append(out, brs)
-	}
-	if boolIdx >= 0 {
-		var brs []c12Br
-		for _, cd := range an.CondsOn(fn, boolv) {
-			if cd.Other != nil || !an.Dominates(call, cd.If) {
-				continue
-			}
-			brs = append(brs, c12Br{cd.If.Block(), cd.Succ(!want), cd.Succ(want)})
-		}
-		if len(brs) == 0 {
-			return nil, "boolean result is never branched on"
-		}
-		out = append(out, brs)
-	}
-	return out, ""
-}
-
-func c12Avoid(base map[*ssa.BasicBlock]bool, more ...*ssa.BasicBlock) map[*ssa.BasicBlock]bool {
-	out := map[*ssa.BasicBlock]bool{}
-	for b := range base {
-		out[b] = true
-	}
-	for _, b := range more {
-		out[b] = true
-	}
-	return out
-}
-
-// c12Reach: is `to` reachable from the top of `from` without entering avoid (from itself exempt from
-// the avoid test only when it is not in avoid).
-func c12Reach(from, to *ssa.BasicBlock, avoid map[*ssa.BasicBlock]bool) bool {
-	if avoid[from] {
-		return false
-	}
-	if from == to {
-		return true
-	}
-	return an.CanReach(from, to, avoid)
-}
-
-// c12SuccReach: can control leaving block b reach `to` (b itself may be `to`: a real cycle is needed).
-func c12SuccReach(b, to *ssa.BasicBlock, avoid map[*ssa.BasicBlock]bool) bool {
-	for _, s := range b.Succs {
-		if c12Reach(s, to, avoid) {
-			return true
-		}
-	}
-	return false
-}
-
-// c12MustBr: every path from `from` to `to` (avoiding the exempt blocks) passes the branch and its
-// failing edge never reaches `to`.
-func c12MustBr(from, to *ssa.BasicBlock, br c12Br, exempt map[*ssa.BasicBlock]bool) (bool, string) {
-	if c12Reach(from, to, c12Avoid(exempt, br.blk)) && from != br.blk {
-		return false, "a path reaches the successful return without passing the check"
-	}
-	if c12Reach(br.fail, to, c12Avoid(nil, br.blk)) {
-		return false, "the failing edge of the check still reaches the successful return"
-	}
-	return true, ""
-}
-
-// c12MustCall: the call's status branches are mandatory on every path from `from` to `to`.
-func c12MustCall(from, to *ssa.BasicBlock, call ssa.CallInstruction, boolIdx int, want bool, exempt map[*ssa.BasicBlock]bool) (bool, string) {
-	sts, why := c12Status(call, boolIdx, want)
-	if why != "" {
-		return false, why
-	}
-	for _, brs := range sts {
-		ok, last := false, ""
-		for _, br := range brs {
-			if g, w := c12MustBr(from, to, br, exempt); g {
-				ok = true
-			} else {
-				last = w
-			}
-		}
-		if !ok {
-			return false, last
-		}
-	}
-	return true, ""
-}
-
-// c12IterMust: in loop l every iteration that reaches the next iteration (or the loop exit towards
-// `after`) passes the call's status branches, except through the exempt blocks.
-func c12IterMustBr(l *an.Loop, br c12Br, exempt map[*ssa.BasicBlock]bool, after *ssa.BasicBlock) (bool, string) {
-	if !l.Body[br.blk] {
-		return false, "check is outside the loop"
-	}
-	av := c12Avoid(exempt, br.blk)
-	// start of an iteration: the in-loop successors of the header (or the header itself for rotated loops)
-	starts := c12IterStarts(l)
-	for _, s := range starts {
-		if s == br.blk {
-			continue
-		}
-		for _, la := range l.Latches {
-			if la == br.blk {
-				continue
-			}
-			if c12ReachIn(l, s, la, av) {
-				return false, "an iteration can complete without passing the check"
-			}
-		}
-	}
-	if l.Body[br.fail] {
-		return false, "the failing edge of the check stays in the loop"
-	}
-	if after != nil {
-		if c12Reach(br.fail, after, c12Avoid(nil, br.blk)) {
-			return false, "the failing edge of the check still reaches the successful continuation"
-		}
-		for _, s := range starts {
-			if s != br.blk && c12Reach(s, after, av) {
-				return false, "an iteration can leave the loop towards the successful continuation without passing the check"
-			}
-		}
-	}
-	return true, ""
-}
-
-// c12IterStarts returns the blocks at which an iteration's body starts.
-func c12IterStarts(l *an.Loop) []*ssa.BasicBlock {
-	// classic form: header ends in the loop condition and has one in-loop successor
-	if iff, ok := l.Header.Instrs[len(l.Header.Instrs)-1].(*ssa.If); ok {
-		_ = iff
-		in, out := 0, 0
-		var first *ssa.BasicBlock
-		for _, s := range l.Header.Succs {
-			if l.Body[s] {
-				in++
-				first = s
-			} else {
-				out++
-			}
-		}
-		if in == 1 && out == 1 && first != l.Header {
-			// header is the pure condition block only if it holds nothing but phis, index arithmetic and the test
-			return []*ssa.BasicBlock{first}
-		}
-	}
-	return []*ssa.BasicBlock{l.Header}
-}
-
-func c12ReachIn(l *an.Loop, from, to *ssa.BasicBlock, avoid map[*ssa.BasicBlock]bool) bool {
-	seen := map[*ssa.BasicBlock]bool{}
-	var walk func(b *ssa.BasicBlock) bool
-	walk = func(b *ssa.BasicBlock) bool {
-		if seen[b] || avoid[b] || !l.Body[b] {
-			return false
-		}
-		if b == to {
-			return true
-		}
-		seen[b] = true
-		for _, s := range b.Succs {
-			if s == l.Header {
-				continue // next iteration
-			}
-			if walk(s) {
-				return true
-			}
-		}
-		return false
-	}
-	return walk(from)
-}
-
-func c12IterMustCall(l *an.Loop, call ssa.CallInstruction, boolIdx int, want bool, exempt map[*ssa.BasicBlock]bool, after *ssa.BasicBlock) (bool, string) {
-	sts, why := c12Status(call, boolIdx, want)
-	if why != "" {
-		return false, why
-	}
-	for _, brs := range sts {
-		ok, last := false, ""
-		for _, br := range brs {
-			if g, w := c12IterMustBr(l, br, exempt, after); g {
-				ok = true
-			} else {
-				last = w
-			}
-		}
-		if !ok {
-			return false, last
-		}
-	}
-	return true, ""
-}
-
-// c12SuccessReturns lists the returns of fn whose error result can be nil: constant nil, or a value
-// that is neither freshly constructed by errors.New/Wrap nor known non-nil from a dominating test.
-func c12SuccessReturns(fn *ssa.Function) []*ssa.Return {
-	var out []*ssa.Return
-	for _, r := range an.Returns(fn) {
-		if len(r.Results) == 0 {
-			continue
-		}
-		v := r.Results[len(r.Results)-1]
-		if !an.IsErrorType(v.Type()) {
-			continue
-		}
-		if !c12NonNil(fn, v, r.Block(), 0) {
-			out = append(out, r)
-		}
-	}
-	return out
-}
-
-func c12NonNil(fn *ssa.Function, v ssa.Value, at *ssa.BasicBlock, d int) bool {
-	if d > 4 {
-		return false
-	}
-	if an.IsNilConst(v) {
-		return false
-	}
-	if call, ok := v.(*ssa.Call); ok {
-		n := an.CalleeName(&call.Call)
-		if n == "app/errors.New" || n == "app/errors.Wrap" {
-			return true
-		}
-	}
-	for _, cd := range an.CondsOn(fn, v) {
-		if cd.Other == nil || !an.IsNilConst(cd.Other) {
-			continue
-		}
-		var nn *ssa.BasicBlock
-		switch cd.Op {
-		case token.NEQ:
-			nn = cd.Succ(true)
-		case token.EQL:
-			nn = cd.Succ(false)
-		default:
-			continue
-		}
-		if (nn == at || nn.Dominates(at)) && len(nn.Preds) == 1 {
-			return true
-		}
-	}
-	if phi, ok := v.(*ssa.Phi); ok {
-		for _, e := range phi.Edges {
-			if !c12NonNil(fn, e, at, d+1) {
-				return false
-			}
-		}
-		return true
-	}
-	return false
-}
-
 // c12DomBy: b is the block s or dominated by it, and s is entered only through that edge.
 func c12DomBy(s, b *ssa.BasicBlock) bool {
 	return (s == b || s.Dominates(b)) && len(s.Preds) == 1
-}
-
-func c12OneCall(c *rt.Ctx, fn *ssa.Function, m an.Matcher, pred func(ssa.CallInstruction) bool) ssa.CallInstruction {
-	var got []ssa.CallInstruction
-	for _, ci := range an.Calls(fn, m, false) {
-		if pred == nil || pred(ci) {
-			got = append(got, ci)
-		}
-	}
-	if len(got) != 1 {
-		return nil
-	}
-	return got[0]
 }
 
 func c12Sorted(m map[string]bool) []string {
@@ -514,29 +84,6 @@ var _ = strings.Join
 
 // ---------------------------------------------------------------------------------------------
 // L3 — verification functions return nil only after every check
-
-func c12Recv(fn *ssa.Function) ssa.Value { return fn.Params[0] }
-
-// c12VersionCall: call is isAnyVersion(<version at path below root>, exactly the given constants).
-func c12IsAnyVersion(call *ssa.Call, root ssa.Value, path string, want ...string) bool {
-	if !an.Static("cluster.isAnyVersion")(&call.Call) || len(call.Call.Args) != 2 || !c12From(call.Call.Args[0], root, path) {
-		return false
-	}
-	vs, ok := c12VersionsOf(call)
-	if !ok || len(vs) != len(want) {
-		return false
-	}
-	set := map[string]bool{}
-	for _, v := range vs {
-		set[v] = true
-	}
-	for _, w := range want {
-		if !set[w] {
-			return false
-		}
-	}
-	return true
-}
 
 // c12VersionsOf decodes the constant variadic version list of an isAnyVersion call.
 func c12VersionsOf(call *ssa.Call) ([]string, bool) {
@@ -580,685 +127,21 @@ func c12VersionsOf(call *ssa.Call) ([]string, bool) {
 	return out, true
 }
 
-// c12CondTrueDom: v is branched on and the edge on which `v` has truth `want` dominates block b.
-func c12BoolEdgeDom(fn *ssa.Function, v ssa.Value, want bool, b *ssa.BasicBlock) bool {
-	for _, cd := range an.CondsOn(fn, v) {
-		if cd.Other == nil && c12DomBy(cd.Succ(want), b) {
-			return true
-		}
-	}
-	return false
-}
-
-// c12CmpConds returns the branches comparing x (selected by isX) with a constant/other operand (selected by isY)
-// as (If block, successor when equal, successor when unequal).
-type c12Cmp struct {
-	blk, eq, ne *ssa.BasicBlock
-	op          token.Token
-	x, y        ssa.Value
-}
-
-func c12Cmps(fn *ssa.Function, isX, isY func(ssa.Value) bool) []c12Cmp {
-	var out []c12Cmp
-	for _, b := range fn.Blocks {
-		iff, ok := b.Instrs[len(b.Instrs)-1].(*ssa.If)
-		if !ok {
-			continue
-		}
-		neg := false
-		cond := iff.Cond
-		for {
-			u, ok := cond.(*ssa.UnOp)
-			if !ok || u.Op != token.NOT {
-				break
-			}
-			neg = !neg
-			cond = u.X
-		}
-		bin, ok := cond.(*ssa.BinOp)
-		if !ok {
-			continue
-		}
-		x, y := bin.X, bin.Y
-		op := bin.Op
-		if !(isX(x) && isY(y)) {
-			if isX(y) && isY(x) {
-				x, y = y, x
-				switch op {
-				case token.LSS:
-					op = token.GTR
-				case token.GTR:
-					op = token.LSS
-				case token.LEQ:
-					op = token.GEQ
-				case token.GEQ:
-					op = token.LEQ
-				}
-			} else {
-				continue
-			}
-		}
-		t, f := b.Succs[0], b.Succs[1]
-		if neg {
-			t, f = f, t
-		}
-		cm := c12Cmp{blk: b, op: op, x: x, y: y}
-		switch op {
-		case token.EQL:
-			cm.eq, cm.ne = t, f
-		case token.NEQ:
-			cm.eq, cm.ne = f, t
-		default:
-			cm.eq, cm.ne = t, f // for ordered comparisons: eq = condition true, ne = condition false
-		}
-		out = append(out, cm)
-	}
-	return out
-}
-
-func c12IsZero(v ssa.Value) bool { n, ok := an.ConstInt(v); return ok && n == 0 }
-func c12IsEmptyStr(v ssa.Value) bool {
-	s, ok := c12ConstStr(v)
-	return ok && s == ""
-}
-
-// c12EmptyEdge: blocks in which the value at root+path is known empty (== "" or len == 0): returns a
-// predicate "block b is dominated by the `empty` edge of such a test".
-func c12EmptyDom(fn *ssa.Function, root ssa.Value, path string, isLen bool) func(b *ssa.BasicBlock) bool {
-	var cms []c12Cmp
-	if isLen {
-		cms = c12Cmps(fn, func(v ssa.Value) bool { x := c12LenOf(v); return x != nil && c12From(x, root, path) }, c12IsZero)
-	} else {
-		cms = c12Cmps(fn, func(v ssa.Value) bool { return c12From(v, root, path) }, c12IsEmptyStr)
-	}
-	return func(b *ssa.BasicBlock) bool {
-		for _, cm := range cms {
-			if (cm.op == token.EQL || cm.op == token.NEQ) && c12DomBy(cm.eq, b) {
-				return true
-			}
-		}
-		return false
-	}
-}
-
 func c12L3(c *rt.Ctx) {
 	c.Rule("L3", 37, func() {
-		c12DefVerifyHashes(c)
-		c12LockVerifyHashes(c)
-		c12LockVerifySigs(c)
-		c12DefVerifySigs(c)
+		c12DefVerifyHashesP(c)
+		c12LockVerifyHashesP(c)
+		c12LockVerifySigsP(c)
+		c12DefVerifySigsP(c)
 		c12VersionCoverage(c)
 	})
-}
-
-func c12HashCompare(c *rt.Ctx, fn *ssa.Function, r *ssa.Return, what string, hashCall ssa.CallInstruction, field string) {
-	name := an.FuncName(fn)
-	entry := fn.Blocks[0]
-	if hashCall == nil {
-		c.Bad(name+" recompute "+what, posOf(r), "no (unique) recomputation of the "+what+" from the receiver")
-		return
-	}
-	ok, why := c12MustCall(entry, r.Block(), hashCall, -1, false, nil)
-	c.Check(name+" recompute "+what, hashCall.Pos(), ok, "recomputation of the "+what+": "+why)
-	eq := c12OneCall(c, fn, an.Static("bytes.Equal"), func(ci ssa.CallInstruction) bool {
-		a := ci.Common().Args
-		return len(a) == 2 && ((c12From(a[0], c12Recv(fn), field) && c12SliceOfResult(a[1], hashCall)) ||
-			(c12From(a[1], c12Recv(fn), field) && c12SliceOfResult(a[0], hashCall)))
-	})
-	if eq == nil {
-		c.Bad(name+" compare "+what, posOf(r), "no bytes.Equal between the stored "+field+" and the recomputed "+what)
-		return
-	}
-	ok, why = c12MustCall(entry, r.Block(), eq, 0, true, nil)
-	c.Check(name+" compare "+what, eq.Pos(), ok, "comparison of stored and recomputed "+what+": "+why)
-}
-
-func c12DefVerifyHashes(c *rt.Ctx) {
-	fn := c.Fn("cluster.Definition.VerifyHashes")
-	rets := c12SuccessReturns(fn)
-	if len(rets) == 0 {
-		c.Bail("Definition.VerifyHashes has no successful return")
-	}
-	for _, r := range rets {
-		for _, cfg := range []bool{true, false} {
-			what, field := "definition hash", ".DefinitionHash"
-			if cfg {
-				what, field = "config hash", ".ConfigHash"
-			}
-			h := c12OneCall(c, fn, an.Static("cluster.hashDefinition"), func(ci ssa.CallInstruction) bool {
-				a := ci.Common().Args
-				b, ok := c12ConstBool(a[1])
-				return ok && b == cfg && c12From(a[0], c12Recv(fn), "")
-			})
-			c12HashCompare(c, fn, r, what, h, field)
-		}
-	}
-}
-
-func c12LockVerifyHashes(c *rt.Ctx) {
-	fn := c.Fn("cluster.Lock.VerifyHashes")
-	rets := c12SuccessReturns(fn)
-	if len(rets) == 0 {
-		c.Bail("Lock.VerifyHashes has no successful return")
-	}
-	for _, r := range rets {
-		dv := c12OneCall(c, fn, an.Static("cluster.Definition.VerifyHashes"), func(ci ssa.CallInstruction) bool {
-			return c12From(ci.Common().Args[0], c12Recv(fn), ".Definition")
-		})
-		if dv == nil {
-			c.Bad("cluster.Lock.VerifyHashes definition hashes", posOf(r), "Definition.VerifyHashes is not called on the embedded definition")
-		} else {
-			ok, why := c12MustCall(fn.Blocks[0], r.Block(), dv, -1, false, nil)
-			c.Check("cluster.Lock.VerifyHashes definition hashes", dv.Pos(), ok, "Definition.VerifyHashes: "+why)
-		}
-		h := c12OneCall(c, fn, an.Static("cluster.hashLock"), func(ci ssa.CallInstruction) bool {
-			return c12From(ci.Common().Args[0], c12Recv(fn), "")
-		})
-		c12HashCompare(c, fn, r, "lock hash", h, ".LockHash")
-	}
-}
-
-func c12LockVerifySigs(c *rt.Ctx) {
-	fn := c.Fn("cluster.Lock.VerifySignatures")
-	name := "cluster.Lock.VerifySignatures"
-	recv := c12Recv(fn)
-	entry := fn.Blocks[0]
-	rets := c12SuccessReturns(fn)
-	if len(rets) == 0 {
-		c.Bail("Lock.VerifySignatures has no successful return")
-	}
-	emptyAgg := c12EmptyDom(fn, recv, ".SignatureAggregate", true)
-	need := func(r *ssa.Return, what string, call ssa.CallInstruction, boolIdx int) {
-		if call == nil {
-			c.Bad(name+" "+what, posOf(r), "no (unique) call performing this check on the receiver")
-			return
-		}
-		if cv := call.Value(); cv != nil && len(r.Results) == 1 && r.Results[0] == ssa.Value(cv) {
-			c.Good(name+" "+what, call.Pos(), "result returned to the caller")
-			return
-		}
-		ok, why := c12MustCall(entry, r.Block(), call, boolIdx, true, nil)
-		c.Check(name+" "+what, call.Pos(), ok, what+": "+why)
-	}
-	defSigs := c12OneCall(c, fn, an.Static("cluster.Definition.VerifySignatures"), func(ci ssa.CallInstruction) bool {
-		return c12From(ci.Common().Args[0], recv, ".Definition")
-	})
-	for _, r := range rets {
-		// frozen early exit: locks of v1.0/v1.1 were created without an aggregate signature
-		if emptyAgg(r.Block()) {
-			okv := false
-			for _, in := range an.Instrs(fn, false) {
-				if call, ok := in.(*ssa.Call); ok && c12IsAnyVersion(call, recv, ".Definition.Version", "v1.0.0", "v1.1.0") &&
-					c12BoolEdgeDom(fn, call, true, r.Block()) {
-					okv = true
-				}
-			}
-			c.Check(name+" early-exit empty-aggregate", posOf(r), okv, "nil is returned for an empty SignatureAggregate outside the v1.0/v1.1 exemption")
-			need(r, "early-exit definition signatures", defSigs, -1)
-			continue
-		}
-		need(r, "definition signatures", defSigs, -1)
-		// the per-validator loop
-		var loop *an.Loop
-		for _, l := range an.Loops(fn) {
-			if coll := l.RangeColl(); coll != nil && c12From(coll, recv, ".Validators") {
-				loop = l
-			}
-		}
-		if loop == nil {
-			c.Bad(name+" validator loop", posOf(r), "no loop over l.Validators")
-			continue
-		}
-		onAll := !c12Reach(entry, r.Block(), c12Avoid(nil, loop.Header))
-		c.Check(name+" validator loop", posOf(loop.Header.Instrs[0]), onAll, "the successful return can be reached without the per-validator checks")
-		iter := func(what string, call ssa.CallInstruction) {
-			if call == nil {
-				c.Bad(name+" per-validator "+what, posOf(r), "no (unique) call performing this check on the validator being iterated")
-				return
-			}
-			ok, why := c12IterMustCall(loop, call, -1, true, nil, r.Block())
-			c.Check(name+" per-validator "+what, call.Pos(), ok, what+": "+why)
-		}
-		elem := func(v ssa.Value, path string) bool {
-			_, p := c12Path(v)
-			return loop.ElemOf(v) && p == ".Validators[]"+path
-		}
-		// share count
-		var cnt *c12Cmp
-		for _, cm := range c12Cmps(fn, func(v ssa.Value) bool { x := c12LenOf(v); return x != nil && elem(x, ".PubShares") },
-			func(v ssa.Value) bool { x := c12LenOf(v); return x != nil && c12From(x, recv, ".Definition.Operators") }) {
-			if cm.op == token.EQL || cm.op == token.NEQ {
-				cm := cm
-				cnt = &cm
-			}
-		}
-		if cnt == nil {
-			c.Bad(name+" per-validator share count", posOf(r), "no comparison of len(val.PubShares) with len(l.Operators)")
-		} else {
-			ok, why := c12IterMustBr(loop, c12Br{cnt.blk, cnt.ne, cnt.eq}, nil, r.Block())
-			c.Check(name+" per-validator share count", posOf(cnt.blk.Instrs[len(cnt.blk.Instrs)-1]), ok, "share count: "+why)
-		}
-		dvKey := c12OneCall(c, fn, an.Static("tbls/tblsconv.PubkeyFromBytes"), func(ci ssa.CallInstruction) bool { return elem(ci.Common().Args[0], ".PubKey") })
-		iter("group key parse", dvKey)
-		// duplicate group key
-		dup := false
-		why := "no duplicate test of the group public key"
-		if dvKey != nil {
-			for _, in := range an.Instrs(fn, false) {
-				lk, ok := in.(*ssa.Lookup)
-				if !ok || !lk.CommaOk || c12ResultOf(lk.Index, 0) != dvKey.(*ssa.Call) {
-					continue
-				}
-				mk, isMake := lk.X.(*ssa.MakeMap)
-				if !isMake || loop.Body[mk.Block()] {
-					why = "the seen-set is not one map created before the loop"
-					continue
-				}
-				for _, ref := range *lk.Referrers() {
-					ex, ok := ref.(*ssa.Extract)
-					if !ok || ex.Index != 1 {
-						continue
-					}
-					for _, cd := range an.CondsOn(fn, ex) {
-						if cd.Other != nil {
-							continue
-						}
-						g, w := c12IterMustBr(loop, c12Br{cd.If.Block(), cd.Succ(true), cd.Succ(false)}, nil, r.Block())
-						if !g {
-							why = w
-							continue
-						}
-						// the key is recorded on every passing iteration
-						rec := false
-						for _, up := range mapUpdates(fn, func(m ssa.Value) bool { return m == ssa.Value(mk) }) {
-							if c12ResultOf(up.Key, 0) == dvKey.(*ssa.Call) && loop.Body[up.Block()] {
-								rec = c12BlockOnEveryIter(loop, up.Block())
-							}
-						}
-						if rec {
-							dup = true
-						} else {
-							why = "the group key is not recorded in the seen-set on every iteration"
-						}
-					}
-				}
-			}
-		}
-		c.Check(name+" per-validator duplicate key", posOf(r), dup, why)
-		parse := c12OneCall(c, fn, an.Static("cluster.parsePubShares"), func(ci ssa.CallInstruction) bool { return elem(ci.Common().Args[0], ".PubShares") })
-		iter("public share parse/duplicates", parse)
-		var recon ssa.CallInstruction
-		if parse != nil && dvKey != nil {
-			recon = c12OneCall(c, fn, an.Static("cluster.verifySharesReconstruct"), func(ci ssa.CallInstruction) bool {
-				a := ci.Common().Args
-				return c12ResultOf(a[0], 0) == dvKey.(*ssa.Call) && c12ResultOf(a[1], 0) == parse.(*ssa.Call) && c12From(a[2], recv, ".Definition.Threshold")
-			})
-		}
-		iter("share reconstruction", recon)
-		// aggregate signature over the recomputed lock hash with exactly the verified shares
-		h := c12OneCall(c, fn, an.Static("cluster.hashLock"), func(ci ssa.CallInstruction) bool { return c12From(ci.Common().Args[0], recv, "") })
-		need(r, "lock hash", h, -1)
-		sig := c12OneCall(c, fn, an.Static("tbls/tblsconv.SignatureFromBytes"), func(ci ssa.CallInstruction) bool {
-			return c12From(ci.Common().Args[0], recv, ".SignatureAggregate")
-		})
-		need(r, "aggregate signature parse", sig, -1)
-		var agg ssa.CallInstruction
-		if h != nil && sig != nil && parse != nil {
-			agg = c12OneCall(c, fn, an.Static("tbls.VerifyAggregate"), func(ci ssa.CallInstruction) bool {
-				a := ci.Common().Args
-				return c12ResultOf(a[1], 0) == sig.(*ssa.Call) && c12SliceOfResult(a[2], h) && c12AllShares(loop, a[0], parse.(*ssa.Call))
-			})
-		}
-		need(r, "aggregate signature over lock hash and all verified shares", agg, -1)
-		need(r, "builder registrations", c12OneCall(c, fn, an.Static("cluster.Lock.verifyBuilderRegistrations"), func(ci ssa.CallInstruction) bool {
-			return c12From(ci.Common().Args[0], recv, "")
-		}), -1)
-		need(r, "node signatures", c12OneCall(c, fn, an.Static("cluster.Lock.verifyNodeSignatures"), func(ci ssa.CallInstruction) bool {
-			return c12From(ci.Common().Args[0], recv, "")
-		}), -1)
-	}
-}
-
-// c12BlockOnEveryIter: every completed iteration of l passes block b.
-func c12BlockOnEveryIter(l *an.Loop, b *ssa.BasicBlock) bool {
-	av := map[*ssa.BasicBlock]bool{b: true}
-	for _, s := range c12IterStarts(l) {
-		if s == b {
-			continue
-		}
-		for _, la := range l.Latches {
-			if la != b && c12ReachIn(l, s, la, av) {
-				return false
-			}
-		}
-	}
-	return true
-}
-
-// c12AllShares: v is the header phi accumulating `append(acc, shares...)` on every iteration of l,
-// where shares is result #0 of parse.
-func c12AllShares(l *an.Loop, v ssa.Value, parse *ssa.Call) bool {
-	phi, ok := v.(*ssa.Phi)
-	if !ok || phi.Block() != l.Header {
-		return false
-	}
-	n := 0
-	for i, e := range phi.Edges {
-		if !l.Body[phi.Block().Preds[i]] {
-			if !an.IsNilConst(e) {
-				return false
-			}
-			continue
-		}
-		call, ok := e.(*ssa.Call)
-		if !ok {
-			return false
-		}
-		b, ok := call.Call.Value.(*ssa.Builtin)
-		if !ok || b.Name() != "append" || len(call.Call.Args) != 2 || call.Call.Args[0] != ssa.Value(phi) || c12ResultOf(call.Call.Args[1], 0) != parse {
-			return false
-		}
-		if !c12BlockOnEveryIter(l, call.Block()) {
-			return false
-		}
-		n++
-	}
-	return n > 0
-}
-
-func c12BlocksWhere(fn *ssa.Function, pred func(*ssa.BasicBlock) bool) map[*ssa.BasicBlock]bool {
-	out := map[*ssa.BasicBlock]bool{}
-	for _, b := range fn.Blocks {
-		if pred(b) {
-			out[b] = true
-		}
-	}
-	return out
-}
-
-// c12OperatorLoop returns the loop over d.Operators in Definition.VerifySignatures and the blocks of the
-// frozen "completely unsigned operator" bypass (Address == "" && both signatures empty).
-func c12OperatorLoop(fn *ssa.Function) (*an.Loop, map[*ssa.BasicBlock]bool) {
-	recv := c12Recv(fn)
-	var loop *an.Loop
-	for _, l := range an.Loops(fn) {
-		if coll := l.RangeColl(); coll != nil && c12From(coll, recv, ".Operators") {
-			loop = l
-		}
-	}
-	if loop == nil {
-		return nil, nil
-	}
-	ea := c12EmptyDom(fn, recv, ".Operators[].Address", false)
-	ee := c12EmptyDom(fn, recv, ".Operators[].ENRSignature", true)
-	ec := c12EmptyDom(fn, recv, ".Operators[].ConfigSignature", true)
-	u := c12BlocksWhere(fn, func(b *ssa.BasicBlock) bool { return loop.Body[b] && ea(b) && ee(b) && ec(b) })
-	return loop, u
-}
-
-func c12SigCall(fn *ssa.Function, loop *an.Loop, addrPath, sigPath string, inLoop bool) ssa.CallInstruction {
-	recv := c12Recv(fn)
-	var got []ssa.CallInstruction
-	for _, ci := range an.Calls(fn, an.Static("cluster.verifySigOrERC1271"), false) {
-		a := ci.Common().Args
-		if len(a) != 4 || !c12From(a[1], recv, addrPath) || !c12From(a[3], recv, sigPath) {
-			continue
-		}
-		if inLoop && !(loop.ElemOf(a[1]) && loop.ElemOf(a[3])) {
-			continue
-		}
-		got = append(got, ci)
-	}
-	if len(got) != 1 {
-		return nil
-	}
-	return got[0]
-}
-
-func c12DefVerifySigs(c *rt.Ctx) {
-	fn := c.Fn("cluster.Definition.VerifySignatures")
-	name := "cluster.Definition.VerifySignatures"
-	recv := c12Recv(fn)
-	entry := fn.Blocks[0]
-	rets := c12SuccessReturns(fn)
-	if len(rets) == 0 {
-		c.Bail("Definition.VerifySignatures has no successful return")
-	}
-	callsOn := func(callee, path string) []*ssa.Call {
-		var out []*ssa.Call
-		for _, ci := range an.Calls(fn, an.Static(callee), false) {
-			if call, ok := ci.(*ssa.Call); ok && c12From(call.Call.Args[0], recv, path) {
-				out = append(out, call)
-			}
-		}
-		return out
-	}
-	support := callsOn("cluster.supportEIP712Sigs", ".Version")
-	present := callsOn("cluster.eip712SigsPresent", ".Operators")
-	for _, r := range rets {
-		early := false
-		for _, s := range support {
-			if c12BoolEdgeDom(fn, s, false, r.Block()) {
-				early = true
-			}
-		}
-		if early {
-			// frozen early exit: definitions older than v1.3 carry no EIP-712 signatures
-			unsigned := false
-			for _, p := range present {
-				if c12BoolEdgeDom(fn, p, false, r.Block()) {
-					unsigned = true
-				}
-			}
-			c.Check(name+" early-exit pre-v1.3", posOf(r), unsigned, "nil is returned for a pre-v1.3 definition without testing that no operator signature is present")
-			sf := c.Fn("cluster.supportEIP712Sigs")
-			exact := false
-			if rs := an.Returns(sf); len(rs) == 1 && len(rs[0].Results) == 1 {
-				if not, ok := rs[0].Results[0].(*ssa.UnOp); ok && not.Op == token.NOT {
-					if call, ok := not.X.(*ssa.Call); ok && c12IsAnyVersion(call, sf.Params[0], "", "v1.0.0", "v1.1.0", "v1.2.0") {
-						exact = true
-					}
-				}
-			}
-			c.Check("cluster.supportEIP712Sigs versions", sf.Pos(), exact, "supportEIP712Sigs is not exactly `!isAnyVersion(version, v1.0, v1.1, v1.2)`: the signature-free early exit covers other versions")
-			continue
-		}
-		loop, u := c12OperatorLoop(fn)
-		if loop == nil {
-			c.Bad(name+" operator loop", posOf(r), "no loop over d.Operators")
-			continue
-		}
-		c.Check(name+" operator loop", posOf(loop.Header.Instrs[0]), !c12Reach(entry, r.Block(), c12Avoid(nil, loop.Header)),
-			"the successful return can be reached without the per-operator checks")
-		for _, k := range [][2]string{{"config", ".ConfigSignature"}, {"enr", ".ENRSignature"}} {
-			v := c12SigCall(fn, loop, ".Operators[].Address", ".Operators[]"+k[1], true)
-			if v == nil {
-				c.Bad(name+" operator "+k[0]+" signature", posOf(r), "no (unique) verifySigOrERC1271(eth1, o.Address, digest, o"+k[1]+") on the operator being iterated")
-				continue
-			}
-			ok, why := c12IterMustCall(loop, v, 0, true, u, r.Block())
-			c.Check(name+" operator "+k[0]+" signature", v.Pos(), ok, "operator "+k[0]+" signature: "+why)
-		}
-		// the bypass is only acceptable when taken for all operators
-		var cnt *ssa.Phi
-		for _, in := range loop.Header.Instrs {
-			phi, ok := in.(*ssa.Phi)
-			if !ok {
-				continue
-			}
-			for i, e := range phi.Edges {
-				bin, ok := e.(*ssa.BinOp)
-				if ok && bin.Op == token.ADD && bin.X == ssa.Value(phi) && u[bin.Block()] && u[phi.Block().Preds[i]] {
-					if k, ok := an.ConstInt(bin.Y); ok && k == 1 {
-						cnt = phi
-					}
-				}
-			}
-		}
-		isCnt := func(v ssa.Value) bool { return cnt != nil && v == ssa.Value(cnt) }
-		if len(u) > 0 {
-			good, why := false, "no `noOpSigs > 0 && noOpSigs != len(d.Operators)` rejection after the loop"
-			if cnt == nil {
-				why = "the unsigned-operator bypass is not counted"
-			}
-			for _, gt := range c12Cmps(fn, isCnt, c12IsZero) {
-				var yes *ssa.BasicBlock
-				switch gt.op {
-				case token.GTR:
-					yes = gt.eq
-				case token.NEQ:
-					yes = gt.ne
-				default:
-					continue
-				}
-				if loop.Body[gt.blk] || !gt.blk.Dominates(r.Block()) {
-					continue
-				}
-				for _, ne := range c12Cmps(fn, isCnt, func(v ssa.Value) bool { x := c12LenOf(v); return x != nil && c12From(x, recv, ".Operators") }) {
-					if (ne.op == token.NEQ || ne.op == token.EQL) && yes == ne.blk && len(ne.blk.Preds) == 1 && !c12Reach(ne.ne, r.Block(), nil) {
-						good = true
-					}
-				}
-			}
-			c.Check(name+" all-or-none unsigned operators", posOf(r), good, why)
-		}
-		// creator
-		x1 := map[*ssa.BasicBlock]bool{}
-		for _, in := range an.Instrs(fn, false) {
-			if call, ok := in.(*ssa.Call); ok && c12IsAnyVersion(call, recv, ".Version", "v1.3.0") {
-				for b := range c12BlocksWhere(fn, func(b *ssa.BasicBlock) bool { return c12BoolEdgeDom(fn, call, true, b) }) {
-					x1[b] = true
-				}
-			}
-		}
-		eca := c12EmptyDom(fn, recv, ".Creator.Address", false)
-		ecs := c12EmptyDom(fn, recv, ".Creator.ConfigSignature", true)
-		x2 := c12BlocksWhere(fn, func(b *ssa.BasicBlock) bool { return eca(b) && ecs(b) })
-		exempt := map[*ssa.BasicBlock]bool{}
-		for b := range x1 {
-			exempt[b] = true
-		}
-		for b := range x2 {
-			exempt[b] = true
-		}
-		v3 := c12SigCall(fn, nil, ".Creator.Address", ".Creator.ConfigSignature", false)
-		if v3 == nil {
-			c.Bad(name+" creator signature", posOf(r), "no (unique) verifySigOrERC1271(eth1, d.Creator.Address, digest, d.Creator.ConfigSignature)")
-		} else {
-			ok, why := c12MustCall(entry, r.Block(), v3, 0, true, exempt)
-			c.Check(name+" creator signature", v3.Pos(), ok, "creator signature: "+why)
-		}
-		if len(x2) > 0 {
-			good, why := false, "an unsigned creator is accepted without requiring that every operator is unsigned too"
-			for _, cm := range c12Cmps(fn, isCnt, c12IsZero) {
-				if (cm.op != token.EQL && cm.op != token.NEQ) || !x2[cm.blk] {
-					continue
-				}
-				all := true
-				for h := range x2 {
-					head := false
-					for _, p := range h.Preds {
-						if !x2[p] {
-							head = true
-						}
-					}
-					if !head {
-						continue
-					}
-					if g, w := c12MustBr(h, r.Block(), c12Br{cm.blk, cm.eq, cm.ne}, nil); !g {
-						all, why = false, w
-					}
-				}
-				if all {
-					good = true
-				}
-			}
-			c.Check(name+" unsigned-creator exemption", posOf(r), good, why)
-		}
-	}
 }
 
 // ---------------------------------------------------------------------------------------------
 // Version dispatch
 
-type c12Case struct {
-	call     *ssa.Call
-	versions []string
-	yes      *ssa.BasicBlock
-	targets  []*ssa.Function
-}
-
 func c12InCluster(f *ssa.Function) bool {
 	return f != nil && f.Pkg != nil && an.Short(f.Pkg.Pkg.Path()) == "cluster" && f.Name() != "isAnyVersion"
-}
-
-// c12Cases decodes the isAnyVersion if-chain of a dispatch function.
-func c12Cases(c *rt.Ctx, fn *ssa.Function) []c12Case {
-	var out []c12Case
-	for _, in := range an.Instrs(fn, false) {
-		call, ok := in.(*ssa.Call)
-		if !ok || !an.Static("cluster.isAnyVersion")(&call.Call) {
-			continue
-		}
-		vs, ok := c12VersionsOf(call)
-		if !ok {
-			c.Bail("%s: version list of an isAnyVersion call is not constant", an.FuncName(fn))
-		}
-		var yes *ssa.BasicBlock
-		for _, cd := range an.CondsOn(fn, call) {
-			if cd.Other == nil {
-				yes = cd.Succ(true)
-			}
-		}
-		if yes == nil {
-			c.Bail("%s: isAnyVersion result is not branched on", an.FuncName(fn))
-		}
-		cs := c12Case{call: call, versions: vs, yes: yes}
-		seen := map[*ssa.Function]bool{}
-		add := func(v ssa.Value) {
-			var f *ssa.Function
-			switch x := v.(type) {
-			case *ssa.Function:
-				f = x
-			case *ssa.MakeClosure:
-				f, _ = x.Fn.(*ssa.Function)
-			}
-			if c12InCluster(f) && !seen[f] {
-				seen[f] = true
-				cs.targets = append(cs.targets, f)
-			}
-		}
-		// the case body may be shared by several or-ed tests (`case isAnyVersion(..), isAnyVersion(..):`)
-		bodyOK := true
-		for _, p := range yes.Preds {
-			i, ok := c12VersionSucc(p, "")
-			_ = i
-			if !ok || !(p.Succs[0] == yes || p.Succs[1] == yes) {
-				bodyOK = false
-			}
-		}
-		domBy := func(b *ssa.BasicBlock) bool { return bodyOK && (yes == b || yes.Dominates(b)) }
-		for _, b := range fn.Blocks {
-			under := domBy(b)
-			for _, i2 := range b.Instrs {
-				if phi, ok := i2.(*ssa.Phi); ok {
-					for k, e := range phi.Edges {
-						if domBy(b.Preds[k]) {
-							add(e)
-						}
-					}
-					continue
-				}
-				if under {
-					for _, op := range an.Operands(i2) {
-						add(op)
-					}
-				}
-			}
-		}
-		out = append(out, cs)
-	}
-	return out
 }
 
 func c12Supported(c *rt.Ctx) map[string]bool {
@@ -1302,32 +185,66 @@ var c12Dispatchers = []string{
 	"cluster.getDepositDataHashFunc", "cluster.getRegistrationHashFunc",
 }
 
+// c12VersionCoverage: a dispatcher handles version v iff, with every isAnyVersion test evaluated for v, it (or a
+// helper it owns) references a function of package cluster that it does not reference for a version matching no
+// test at all. Other registered dispatchers are not descended into (they are checked on their own).
 func c12VersionCoverage(c *rt.Ctx) {
 	sup := c12Supported(c)
+	stop := map[*ssa.Function]bool{}
+	for _, name := range c12Dispatchers {
+		stop[c.Fn(name)] = true
+	}
+	const bogus = "v?.?.?"
 	for _, name := range c12Dispatchers {
 		fn := c.Fn(name)
-		got := map[string]bool{}
-		for _, cs := range c12Cases(c, fn) {
-			if len(cs.targets) == 0 {
-				continue
-			}
-			for _, v := range cs.versions {
-				got[v] = true
-			}
+		base := map[*ssa.Function]bool{}
+		bcl := c12ClosureStop([]*ssa.Function{fn}, bogus, stop)
+		imprecise := bcl.imprecise
+		for _, f := range bcl.fns {
+			base[f] = true
 		}
 		var miss, extra []string
 		for v := range sup {
-			if !got[v] {
+			gated := false
+			vcl := c12ClosureStop([]*ssa.Function{fn}, v, stop)
+			imprecise = imprecise || vcl.imprecise
+			for _, f := range vcl.fns {
+				if !base[f] {
+					gated = true
+				}
+			}
+			if !gated {
 				miss = append(miss, v)
 			}
 		}
-		for v := range got {
-			if !sup[v] {
-				extra = append(extra, v)
+		seen := map[string]bool{}
+		decodable := true
+		for _, f := range c12ClosureStop([]*ssa.Function{fn}, "", stop).fns {
+			for _, in := range an.Instrs(f, false) {
+				if call, ok := in.(*ssa.Call); ok && an.Static("cluster.isAnyVersion")(&call.Call) {
+					vs, ok := c12VersionsOf(call)
+					if !ok {
+						decodable = false
+					}
+					for _, v := range vs {
+						if !sup[v] && !seen[v] {
+							seen[v] = true
+							extra = append(extra, v)
+						}
+					}
+				}
 			}
+		}
+		if !decodable {
+			c.Unsure(name+" covers supportedVersions", fn.Pos(), "version list of an isAnyVersion call is not constant")
+			continue
 		}
 		sort.Strings(miss)
 		sort.Strings(extra)
+		if len(miss) > 0 && imprecise {
+			c.Unsure(name+" covers supportedVersions", fn.Pos(), "a version-dependent condition of the dispatch cannot be evaluated statically (missing "+strings.Join(miss, ",")+"?)")
+			continue
+		}
 		c.Check(name+" covers supportedVersions", fn.Pos(), len(miss) == 0 && len(extra) == 0,
 			"version switch differs from supportedVersions: missing "+strings.Join(miss, ",")+" extra "+strings.Join(extra, ","))
 	}
@@ -1337,404 +254,23 @@ func c12VersionCoverage(c *rt.Ctx) {
 // L4 — Combine stores a recombined secret only after comparing its public key with the lock
 
 func c12L4(c *rt.Ctx) {
-	c.Rule("L4", 5, func() {
-		fn := c.Fn("cmd/combine.Combine")
-		name := "cmd/combine.Combine"
-		lm := c.OneCall(fn, an.Static("cmd/combine.loadManifest"), "loadManifest", false)
-		isLock := func(v ssa.Value) bool {
-			call := c12ResultOf(v, 0)
-			return call != nil && ssa.Instruction(call) == lm.(ssa.Instruction)
-		}
-		// the accumulation of recombined secrets
-		var app *ssa.Call
-		var secret ssa.Value
-		for _, in := range an.Instrs(fn, false) {
-			call, ok := in.(*ssa.Call)
-			if !ok {
-				continue
-			}
-			if b, ok := call.Call.Value.(*ssa.Builtin); !ok || b.Name() != "append" {
-				continue
-			}
-			el := appendedElems(call)
-			if len(el) != 1 {
-				continue
-			}
-			if rc := c12ResultOf(el[0], 0); rc != nil && an.Static("tbls.RecoverSecret")(&rc.Call) {
-				if app != nil {
-					c.Bail("several appends of a recovered secret in Combine")
-				}
-				app, secret = call, an.Resolve(el[0])
-			}
-		}
-		if app == nil {
-			c.Bail("no append of the tbls.RecoverSecret result in Combine")
-		}
-		loop := an.InnermostLoop(fn, app.Block())
-		if loop == nil {
-			c.Bail("the recombination is not in a loop")
-		}
-		gen := c12OneCall(c, fn, an.Static("tbls.SecretToPublicKey"), func(ci ssa.CallInstruction) bool { return an.Resolve(ci.Common().Args[0]) == secret })
-		val := c12OneCall(c, fn, an.Static("tbls/tblsconv.PubkeyFromBytes"), func(ci ssa.CallInstruction) bool {
-			r, p := c12Path(ci.Common().Args[0])
-			return isLock(r) && p == ".Validators[].PubKey" && loop.Body[ci.Block()]
-		})
-		if gen == nil || val == nil {
-			c.Bad(name+" public-key comparison", app.Pos(), "no derivation of the recombined secret's public key and of the lock's validator key for the same iteration")
-			return
-		}
-		isRes := func(call ssa.CallInstruction) func(ssa.Value) bool {
-			return func(v ssa.Value) bool {
-				r := c12ResultOf(v, 0)
-				return r != nil && ssa.Instruction(r) == call.(ssa.Instruction)
-			}
-		}
-		// what is written
-		ks := c.OneCall(fn, an.FieldCall("cmd/combine.options.keyStoreFunc"), "o.keyStoreFunc", false)
-		if loop.Body[ks.Block()] {
-			c.Bail("keystore write inside the recombination loop")
-		}
-		good, why := false, "the recombined secret is stored without comparing tbls.SecretToPublicKey(secret) with the lock's validator public key"
-		for _, cm := range c12Cmps(fn, isRes(gen), isRes(val)) {
-			if cm.op != token.EQL && cm.op != token.NEQ {
-				continue
-			}
-			if g, w := c12IterMustBr(loop, c12Br{cm.blk, cm.ne, cm.eq}, nil, ks.Block()); g {
-				good = true
-			} else {
-				why = w
-			}
-		}
-		c.Check(name+" public-key comparison", app.Pos(), good, why)
-		for _, k := range []struct {
-			what string
-			call ssa.CallInstruction
-		}{{"generated public key", gen}, {"lock validator key", val}} {
-			g, w := c12IterMustCall(loop, k.call, -1, true, nil, ks.Block())
-			c.Check(name+" "+k.what+" derivation checked", k.call.Pos(), g, w)
-		}
-		// same validator index for the shares and the lock entry
-		idx := c12IndexOf(val.Common().Args[0])
-		bind := false
-		if rc := c12ResultOf(secret, 0); rc != nil && idx != nil {
-			if sh := c12ResultOf(rc.Call.Args[0], 0); sh != nil && an.Static("cmd/combine.shareIdxByPubkeys")(&sh.Call) {
-				a := sh.Call.Args
-				if isLock(a[0]) && a[2] == idx {
-					if lk, ok := an.Unwrap(a[1]).(*ssa.Lookup); ok && lk.Index == idx {
-						bind = true
-					}
-				}
-			}
-		}
-		c.Check(name+" validator index binding", val.Pos(), bind, "the secret is recombined from the shares of one validator index but compared with the lock entry of another")
-		// what is written is exactly the accumulated, compared secrets
-		seen := map[ssa.Value]bool{}
-		var only func(v ssa.Value) bool
-		only = func(v ssa.Value) bool {
-			if seen[v] {
-				return true
-			}
-			seen[v] = true
-			if an.IsNilConst(v) || v == ssa.Value(app) {
-				return true
-			}
-			if phi, ok := v.(*ssa.Phi); ok {
-				for _, e := range phi.Edges {
-					if !only(e) {
-						return false
-					}
-				}
-				return true
-			}
-			return false
-		}
-		okArg := only(ks.Common().Args[0]) && seen[ssa.Value(app)] && only(app.Call.Args[0])
-		c.Check(name+" keystore holds only compared secrets", ks.Pos(), okArg, "the slice handed to the keystore writer is not the accumulation of the compared secrets")
-	})
+	c.Rule("L4", 5, func() { c12L4P(c) })
 }
 
 // ---------------------------------------------------------------------------------------------
 // L5 — loaders ignore a verification error only under the explicit no-verify flag
 
-// c12SuccessBlocks: blocks that end in a return whose error result is the nil constant (directly or
-// through the spill slot used when the function has defers).
-func c12SuccessBlocks(fn *ssa.Function) []*ssa.BasicBlock {
-	var out []*ssa.BasicBlock
-	for _, r := range an.Returns(fn) {
-		if len(r.Results) == 0 {
-			continue
-		}
-		v := r.Results[len(r.Results)-1]
-		if !an.IsErrorType(v.Type()) {
-			continue
-		}
-		if an.IsNilConst(v) {
-			out = append(out, r.Block())
-			continue
-		}
-		ld, ok := v.(*ssa.UnOp)
-		if !ok || ld.Op != token.MUL {
-			continue
-		}
-		var last ssa.Value
-		for _, in := range r.Block().Instrs {
-			if st, ok := in.(*ssa.Store); ok && st.Addr == ld.X {
-				last = st.Val
-			}
-		}
-		if last != nil && an.IsNilConst(last) {
-			out = append(out, r.Block())
-		}
-	}
-	return out
-}
-
-func c12NoVerifyRule(c *rt.Ctx, fnName string, callee string, isFlag func(ssa.Value) bool, exempt func(*ssa.BasicBlock) bool) {
-	fn := c.Fn(fnName)
-	key := fnName + " " + callee
-	calls := an.Calls(fn, an.Static(callee), false)
-	if len(calls) != 1 {
-		c.Bad(key, fn.Pos(), "expected exactly one call to "+callee)
-		return
-	}
-	call := calls[0]
-	var succ []*ssa.BasicBlock
-	for _, b := range c12SuccessBlocks(fn) {
-		if exempt == nil || !exempt(b) {
-			succ = append(succ, b)
-		}
-	}
-	if len(succ) == 0 {
-		c.Unsure(key, fn.Pos(), "no successful return found")
-		return
-	}
-	// edges taken when the flag is set
-	type edge struct {
-		b *ssa.BasicBlock
-		i int
-	}
-	flagOn := map[edge]bool{}
-	for _, b := range fn.Blocks {
-		iff, ok := b.Instrs[len(b.Instrs)-1].(*ssa.If)
-		if !ok {
-			continue
-		}
-		cond, neg := iff.Cond, false
-		for {
-			u, ok := cond.(*ssa.UnOp)
-			if !ok || u.Op != token.NOT {
-				break
-			}
-			cond, neg = u.X, !neg
-		}
-		if !isFlag(cond) {
-			continue
-		}
-		if neg {
-			flagOn[edge{b, 1}] = true
-		} else {
-			flagOn[edge{b, 0}] = true
-		}
-	}
-	reach := func(from, to *ssa.BasicBlock) bool {
-		seen := map[*ssa.BasicBlock]bool{}
-		var walk func(b *ssa.BasicBlock) bool
-		walk = func(b *ssa.BasicBlock) bool {
-			if b == to {
-				return true
-			}
-			if seen[b] {
-				return false
-			}
-			seen[b] = true
-			for i, s := range b.Succs {
-				if !flagOn[edge{b, i}] && walk(s) {
-					return true
-				}
-			}
-			return false
-		}
-		return walk(from)
-	}
-	sts, why := c12Status(call, -1, false)
-	if why != "" {
-		c.Bad(key, call.Pos(), "verification result: "+why)
-		return
-	}
-	for _, s := range succ {
-		if !call.Block().Dominates(s) && call.Block() != s {
-			c.Bad(key, call.Pos(), "a successful return is reachable without running the verification")
-			return
-		}
-	}
-	good, detail := true, ""
-	for _, brs := range sts {
-		// the first test of the error decides; later tests of the same value are re-tests on its edges
-		var first *c12Br
-		for i := range brs {
-			dom := true
-			for j := range brs {
-				if i != j && !brs[i].blk.Dominates(brs[j].blk) {
-					dom = false
-				}
-			}
-			if dom {
-				first = &brs[i]
-			}
-		}
-		if first == nil {
-			good, detail = false, "the tests of the verification error are not nested"
-			continue
-		}
-		for _, s := range succ {
-			if reach(first.fail, s) {
-				good, detail = false, "with a verification error the successful return is reachable without taking an edge on which the no-verify flag is set"
-			}
-		}
-	}
-	c.Check(key, call.Pos(), good, detail)
-}
-
 func c12L5(c *rt.Ctx) {
-	c.Rule("L5", 7, func() {
-		lcl := c.Fn("cluster.LoadClusterLock")
-		pflag := func(v ssa.Value) bool { return v == ssa.Value(lcl.Params[2]) }
-		c12NoVerifyRule(c, "cluster.LoadClusterLock", "cluster.Lock.VerifyHashes", pflag, nil)
-		c12NoVerifyRule(c, "cluster.LoadClusterLock", "cluster.Lock.VerifySignatures", pflag, nil)
-		ld := c.Fn("dkg.loadDefinition")
-		cflag := func(v ssa.Value) bool { return c12From(v, ld.Params[1], ".NoVerify") }
-		// frozen exemption: the in-process test definition (conf.TestConfig.Def != nil) is returned as is
-		testDef := func(b *ssa.BasicBlock) bool {
-			for _, cm := range c12Cmps(ld, func(v ssa.Value) bool { return c12From(v, ld.Params[1], ".TestConfig.Def") }, an.IsNilConst) {
-				if (cm.op == token.EQL || cm.op == token.NEQ) && c12DomBy(cm.ne, b) {
-					return true
-				}
-			}
-			return false
-		}
-		c12NoVerifyRule(c, "dkg.loadDefinition", "cluster.Definition.VerifyHashes", cflag, testDef)
-		c12NoVerifyRule(c, "dkg.loadDefinition", "cluster.Definition.VerifySignatures", cflag, testDef)
-		// flag provenance
-		lv := c.Fn("cluster.LoadClusterLockAndVerify")
-		call := c.OneCall(lv, an.Static("cluster.LoadClusterLock"), "LoadClusterLock", false)
-		b, isC := c12ConstBool(call.Common().Args[2])
-		c.Check("cluster.LoadClusterLockAndVerify noVerify=false", call.Pos(), isC && !b, "LoadClusterLockAndVerify does not pass the constant false as noVerify")
-		lm := c.Fn("cmd/combine.loadManifest")
-		call = c.OneCall(lm, an.Static("cluster.LoadClusterLock"), "LoadClusterLock", false)
-		c.Check("cmd/combine.loadManifest noVerify passthrough", call.Pos(), call.Common().Args[2] == ssa.Value(lm.Params[2]), "loadManifest does not forward its own noverify parameter")
-		cb := c.Fn("cmd/combine.Combine")
-		call = c.OneCall(cb, an.Static("cmd/combine.loadManifest"), "loadManifest", false)
-		c.Check("cmd/combine.Combine noVerify passthrough", call.Pos(), call.Common().Args[2] == ssa.Value(cb.Params[4]), "Combine does not forward its own noverify parameter")
-	})
+	c.Rule("L5", 7, func() { c12L5P(c) })
 }
 
 // ---------------------------------------------------------------------------------------------
 // L6 — EIP-712 digests are built from the right type and operator
 
-func c12GlobalLoad(v ssa.Value, name string) bool {
-	ld, ok := an.Unwrap(v).(*ssa.UnOp)
-	if !ok || ld.Op != token.MUL {
-		return false
-	}
-	g, ok := ld.X.(*ssa.Global)
-	return ok && g.Name() == name && g.Pkg != nil && an.Short(g.Pkg.Pkg.Path()) == "cluster"
-}
-
 func c12L6(c *rt.Ctx) {
 	c.Rule("L6", 8, func() {
-		fn := c.Fn("cluster.Definition.VerifySignatures")
-		name := "cluster.Definition.VerifySignatures"
-		recv := c12Recv(fn)
-		loop, _ := c12OperatorLoop(fn)
-		if loop == nil {
-			c.Bail("no loop over d.Operators in Definition.VerifySignatures")
-		}
-		digestOf := func(v ssa.CallInstruction) *ssa.Call {
-			if v == nil {
-				return nil
-			}
-			d := c12ResultOf(v.Common().Args[2], 0)
-			if d == nil || !an.Static("cluster.digestEIP712")(&d.Call) {
-				return nil
-			}
-			return d
-		}
-		chk := func(what string, v ssa.CallInstruction, typeOK func(ssa.Value) bool, opOK func(ssa.Value) bool) {
-			d := digestOf(v)
-			if d == nil {
-				c.Bad(name+" "+what+" digest", fn.Pos(), "the digest verified is not the result of digestEIP712")
-				return
-			}
-			g, w := an.Guarded(d, v.(ssa.Instruction), an.DefaultGuard)
-			ok := typeOK(d.Call.Args[0]) && c12From(d.Call.Args[1], recv, "") && opOK(d.Call.Args[2]) && g
-			c.Check(name+" "+what+" digest", d.Pos(), ok, "digest is not built from the expected EIP-712 type, this definition and the operator being verified ("+w+")")
-		}
-		anyOp := func(ssa.Value) bool { return true }
-		chk("operator config", c12SigCall(fn, loop, ".Operators[].Address", ".Operators[].ConfigSignature", true), func(v ssa.Value) bool {
-			call, ok := an.Unwrap(v).(*ssa.Call)
-			return ok && an.Static("cluster.getOperatorEIP712Type")(&call.Call) && c12From(call.Call.Args[0], recv, ".Version")
-		}, anyOp)
-		chk("operator enr", c12SigCall(fn, loop, ".Operators[].Address", ".Operators[].ENRSignature", true),
-			func(v ssa.Value) bool { return c12GlobalLoad(v, "eip712ENR") },
-			func(v ssa.Value) bool { _, p := c12Path(v); return p == ".Operators[]" && loop.ElemOf(v) })
-		chk("creator config", c12SigCall(fn, nil, ".Creator.Address", ".Creator.ConfigSignature", false),
-			func(v ssa.Value) bool { return c12GlobalLoad(v, "eip712CreatorConfigHash") }, anyOp)
-		// getOperatorEIP712Type
-		gt := c.Fn("cluster.getOperatorEIP712Type")
-		okT := true
-		n := 0
-		for _, r := range an.Returns(gt) {
-			v13 := false
-			for _, in := range an.Instrs(gt, false) {
-				if call, ok := in.(*ssa.Call); ok && c12IsAnyVersion(call, gt.Params[0], "", "v1.3.0") && c12BoolEdgeDom(gt, call, true, r.Block()) {
-					v13 = true
-				}
-			}
-			want := "eip712OperatorConfigHash"
-			if v13 {
-				want = "eip712V1x3ConfigHash"
-			}
-			if !c12GlobalLoad(r.Results[0], want) {
-				okT = false
-			}
-			n++
-		}
-		c.Check("cluster.getOperatorEIP712Type", gt.Pos(), okT && n == 2, "does not return eip712V1x3ConfigHash exactly for v1.3 and eip712OperatorConfigHash otherwise")
-		// ValueFuncs
-		pkg := c.Pkg("cluster")
-		initFn := c.SSAPkg("cluster").Func("init")
-		for _, g := range []struct {
-			name, path string
-			param      int
-		}{
-			{"eip712CreatorConfigHash", ".ConfigHash", 0}, {"eip712OperatorConfigHash", ".ConfigHash", 0},
-			{"eip712V1x3ConfigHash", ".ConfigHash", 0}, {"eip712ENR", ".ENR", 1},
-		} {
-			pos := c12ValueFuncPos(pkg, g.name)
-			var vf *ssa.Function
-			for _, a := range initFn.AnonFuncs {
-				if len(pos) == 1 && a.Pos() == pos[0] {
-					vf = a
-				}
-			}
-			if vf == nil {
-				c.Unsure("cluster."+g.name+" ValueFunc", token.NoPos, "cannot locate the single ValueFunc literal of "+g.name)
-				continue
-			}
-			ok := false
-			if rs := an.Returns(vf); len(rs) == 1 && len(rs[0].Results) == 1 {
-				v := an.Unwrap(rs[0].Results[0])
-				if g.param == 0 {
-					if call, isCall := v.(*ssa.Call); isCall && an.Static("cluster.to0xHex")(&call.Call) {
-						v = call.Call.Args[0]
-					} else {
-						v = nil
-					}
-				}
-				ok = v != nil && c12From(v, vf.Params[g.param], g.path)
-			}
-			c.Check("cluster."+g.name+" ValueFunc", vf.Pos(), ok, "the signed value is not the field the type denotes ("+g.path+")")
-		}
+		c12L6P(c)
+		c12ValueFuncsP(c)
 	})
 }
 
@@ -1757,127 +293,151 @@ func c12Tracked(key string) bool {
 	return false
 }
 
-func c12ValueFuncPos(pkg *packages.Package, global string) []token.Pos {
-	var out []token.Pos
-	for _, f := range pkg.Syntax {
-		for _, d := range f.Decls {
-			gd, ok := d.(*ast.GenDecl)
+// c12VerEval evaluates a boolean built from isAnyVersion(x, consts...) tests for version ver: the tests themselves,
+// negations, comparisons with boolean constants and phis of short-circuit operators / named booleans (only the
+// incoming edges that are feasible for ver count). known=false: not decided by the version alone; versioned reports
+// whether an isAnyVersion test is involved at all.
+func c12VerEval(v ssa.Value, ver string, edgeOK func(from, to *ssa.BasicBlock) bool, d int) (val, known, versioned bool) {
+	if d > 8 {
+		return false, false, false
+	}
+	switch x := v.(type) {
+	case *ssa.Const:
+		if b, ok := c12ConstBool(x); ok {
+			return b, true, false
+		}
+	case *ssa.UnOp:
+		if x.Op == token.NOT {
+			val, known, versioned = c12VerEval(x.X, ver, edgeOK, d+1)
+			return !val, known, versioned
+		}
+	case *ssa.Call:
+		if an.Static("cluster.isAnyVersion")(&x.Call) {
+			vs, ok := c12VersionsOf(x)
 			if !ok {
+				return false, false, true
+			}
+			for _, w := range vs {
+				if w == ver {
+					return true, true, true
+				}
+			}
+			return false, true, true
+		}
+	case *ssa.BinOp:
+		if x.Op == token.EQL || x.Op == token.NEQ {
+			for i, side := range []ssa.Value{x.X, x.Y} {
+				if c, ok := c12ConstBool(side); ok {
+					other := x.Y
+					if i == 1 {
+						other = x.X
+					}
+					val, known, versioned = c12VerEval(other, ver, edgeOK, d+1)
+					return val == (c == (x.Op == token.EQL)), known, versioned
+				}
+			}
+		}
+	case *ssa.Phi:
+		first, agreed := true, true
+		for i, e := range x.Edges {
+			if !edgeOK(x.Block().Preds[i], x.Block()) {
 				continue
 			}
-			for _, sp := range gd.Specs {
-				vs, ok := sp.(*ast.ValueSpec)
-				if !ok {
-					continue
-				}
-				for i, n := range vs.Names {
-					if n.Name != global || i >= len(vs.Values) {
-						continue
-					}
-					ast.Inspect(vs.Values[i], func(nd ast.Node) bool {
-						if kv, ok := nd.(*ast.KeyValueExpr); ok {
-							if id, ok := kv.Key.(*ast.Ident); ok && id.Name == "ValueFunc" {
-								if fl, ok := kv.Value.(*ast.FuncLit); ok {
-									out = append(out, fl.Pos())
-								}
-							}
-						}
-						return true
-					})
-				}
+			ev, ek, evs := c12VerEval(e, ver, edgeOK, d+1)
+			versioned = versioned || evs
+			if !ek {
+				agreed = false
+				continue
+			}
+			if first {
+				val, first = ev, false
+			} else if ev != val {
+				agreed = false
 			}
 		}
+		return val, agreed && !first, versioned
 	}
-	return out
-}
-
-// c12VersionCond decodes a branch on isAnyVersion(x, consts...): returns the successor index taken for ver.
-func c12VersionSucc(b *ssa.BasicBlock, ver string) (int, bool) {
-	iff, ok := b.Instrs[len(b.Instrs)-1].(*ssa.If)
-	if !ok {
-		return 0, false
-	}
-	cond, neg := iff.Cond, false
-	for {
-		u, ok := cond.(*ssa.UnOp)
-		if !ok || u.Op != token.NOT {
-			break
-		}
-		cond, neg = u.X, !neg
-	}
-	call, ok := cond.(*ssa.Call)
-	if !ok || !an.Static("cluster.isAnyVersion")(&call.Call) {
-		return 0, false
-	}
-	vs, ok := c12VersionsOf(call)
-	if !ok {
-		return 0, false
-	}
-	truth := false
-	for _, v := range vs {
-		if v == ver {
-			truth = true
-		}
-	}
-	if neg {
-		truth = !truth
-	}
-	if truth {
-		return 0, true
-	}
-	return 1, true
+	return false, false, false
 }
 
 // c12Feasible returns the blocks of fn reachable when every isAnyVersion test is evaluated for ver
-// (all blocks when ver is empty).
-func c12Feasible(fn *ssa.Function, ver string) map[*ssa.BasicBlock]bool {
+// (all blocks when ver is empty); imprecise reports a version-dependent condition that could not be decided.
+func c12Feasible(fn *ssa.Function, ver string) (map[*ssa.BasicBlock]bool, bool) {
 	seen := map[*ssa.BasicBlock]bool{}
+	imprecise := false
 	if len(fn.Blocks) == 0 {
-		return seen
+		return seen, false
 	}
-	var walk func(b *ssa.BasicBlock)
-	walk = func(b *ssa.BasicBlock) {
-		if seen[b] {
-			return
-		}
-		seen[b] = true
-		if ver != "" {
-			if i, ok := c12VersionSucc(b, ver); ok {
-				walk(b.Succs[i])
-				return
+	type edge struct{ from, to *ssa.BasicBlock }
+	edges := map[edge]bool{}
+	edgeOK := func(from, to *ssa.BasicBlock) bool { return edges[edge{from, to}] }
+	seen[fn.Blocks[0]] = true
+	for changed := true; changed; {
+		changed = false
+		imprecise = false
+		for _, b := range fn.Blocks {
+			if !seen[b] {
+				continue
+			}
+			take := []bool{true, true}
+			if iff, ok := b.Instrs[len(b.Instrs)-1].(*ssa.If); ok && ver != "" && len(b.Succs) == 2 {
+				val, known, versioned := c12VerEval(iff.Cond, ver, edgeOK, 0)
+				if known && versioned {
+					take = []bool{val, !val}
+				} else if versioned {
+					imprecise = true
+				}
+			}
+			for i, s := range b.Succs {
+				if i < len(take) && !take[i] {
+					continue
+				}
+				if !edges[edge{b, s}] {
+					edges[edge{b, s}] = true
+					changed = true
+				}
+				if !seen[s] {
+					seen[s] = true
+					changed = true
+				}
 			}
 		}
-		for _, s := range b.Succs {
-			walk(s)
-		}
 	}
-	walk(fn.Blocks[0])
-	return seen
+	return seen, imprecise
 }
 
 type c12Clo struct {
-	ver  string
-	fns  []*ssa.Function
-	feas map[*ssa.Function]map[*ssa.BasicBlock]bool
+	ver       string
+	fns       []*ssa.Function
+	feas      map[*ssa.Function]map[*ssa.BasicBlock]bool
+	imprecise bool // some version-dependent branch could not be decided for ver (both edges were followed)
 }
 
 func (cl *c12Clo) feasible(fn *ssa.Function) map[*ssa.BasicBlock]bool {
 	if m, ok := cl.feas[fn]; ok {
 		return m
 	}
-	m := c12Feasible(fn, cl.ver)
+	m, imp := c12Feasible(fn, cl.ver)
+	cl.imprecise = cl.imprecise || imp
 	cl.feas[fn] = m
 	return m
 }
 
 // c12Closure: functions of package cluster reachable from roots through static calls and function
 // values, following only the blocks feasible for ver.
-func c12Closure(roots []*ssa.Function, ver string) *c12Clo {
+func c12Closure(roots []*ssa.Function, ver string) *c12Clo { return c12ClosureStop(roots, ver, nil) }
+
+// c12ClosureStop is c12Closure that does not descend into the functions of stop (unless they are roots).
+func c12ClosureStop(roots []*ssa.Function, ver string, stop map[*ssa.Function]bool) *c12Clo {
 	cl := &c12Clo{ver: ver, feas: map[*ssa.Function]map[*ssa.BasicBlock]bool{}}
 	seen := map[*ssa.Function]bool{}
+	isRoot := map[*ssa.Function]bool{}
+	for _, r := range roots {
+		isRoot[r] = true
+	}
 	var visit func(fn *ssa.Function)
 	visit = func(fn *ssa.Function) {
-		if fn == nil || seen[fn] || !c12InCluster(fn) || fn.Blocks == nil {
+		if fn == nil || seen[fn] || !c12InCluster(fn) || fn.Blocks == nil || (stop[fn] && !isRoot[fn]) {
 			return
 		}
 		seen[fn] = true
@@ -1916,6 +476,67 @@ func c12Closure(roots []*ssa.Function, ver string) *c12Clo {
 		visit(r)
 	}
 	return cl
+}
+
+// c12Gated returns the functions of package cluster that dispatcher fn (or a helper it owns) references only when
+// every isAnyVersion test is evaluated for ver: the entry points of the version-specific code. Registered
+// dispatchers in stop are not descended into.
+func c12Gated(fn *ssa.Function, ver string, stop map[*ssa.Function]bool) (entries []*ssa.Function, imprecise bool) {
+	const bogus = "v?.?.?"
+	base := map[*ssa.Function]bool{}
+	bcl := c12ClosureStop([]*ssa.Function{fn}, bogus, stop)
+	for _, f := range bcl.fns {
+		base[f] = true
+	}
+	cl := c12ClosureStop([]*ssa.Function{fn}, ver, stop)
+	defer func() { imprecise = bcl.imprecise || cl.imprecise }()
+	gated := map[*ssa.Function]bool{}
+	for _, f := range cl.fns {
+		if !base[f] {
+			gated[f] = true
+		}
+	}
+	seen := map[*ssa.Function]bool{}
+	var out []*ssa.Function
+	for _, g := range cl.fns {
+		if gated[g] {
+			continue
+		}
+		feas := cl.feasible(g)
+		ref := func(v ssa.Value) {
+			var f *ssa.Function
+			switch x := v.(type) {
+			case *ssa.Function:
+				f = x
+			case *ssa.MakeClosure:
+				f, _ = x.Fn.(*ssa.Function)
+			}
+			if f != nil && gated[f] && !seen[f] {
+				seen[f] = true
+				out = append(out, f)
+			}
+		}
+		for _, b := range g.Blocks {
+			if !feas[b] {
+				continue
+			}
+			for _, in := range b.Instrs {
+				if phi, ok := in.(*ssa.Phi); ok {
+					for i, e := range phi.Edges {
+						if feas[b.Preds[i]] {
+							ref(e)
+						}
+					}
+					continue
+				}
+				for _, op := range an.Operands(in) {
+					ref(op)
+				}
+			}
+		}
+	}
+	sort.Slice(out, func(i, j int) bool { return an.FuncName(out[i]) < an.FuncName(out[j]) })
+	return out, false
 }
 
 // c12AddrUse classifies the uses of a field address: read (loaded, passed on, sub-selected and read)
@@ -2032,19 +653,16 @@ func c12Minus(a, b map[string]bool, exempt ...string) []string {
 func c12L2(c *rt.Ctx) {
 	c.Rule("L2", 48, func() {
 		sup := c12Sorted(c12Supported(c))
-		target := func(cases []c12Case, ver string) *ssa.Function {
-			var got []*ssa.Function
-			for _, cs := range cases {
-				for _, v := range cs.versions {
-					if v == ver {
-						got = append(got, cs.targets...)
-					}
-				}
+		stop := map[*ssa.Function]bool{}
+		for _, name := range c12Dispatchers {
+			stop[c.Fn(name)] = true
+		}
+		names := func(fs []*ssa.Function) string {
+			var out []string
+			for _, f := range fs {
+				out = append(out, f.Name())
 			}
-			if len(got) != 1 {
-				return nil
-			}
-			return got[0]
+			return strings.Join(out, "+")
 		}
 		type side struct {
 			what, marshal, unmarshal, hash string
@@ -2058,28 +676,28 @@ func c12L2(c *rt.Ctx) {
 				[]string{c12P + "Lock.LockHash", c12P + "Lock.SignatureAggregate", c12P + "Lock.NodeSignatures"}, []string{c12P + "Lock.LockHash"}},
 		}
 		for _, s := range sides {
-			mc := c12Cases(c, c.Fn(s.marshal))
-			uc := c12Cases(c, c.Fn(s.unmarshal))
+			mfn, ufn := c.Fn(s.marshal), c.Fn(s.unmarshal)
 			hroot := c.Fn(s.hash)
 			for _, ver := range sup {
-				m, u := target(mc, ver), target(uc, ver)
-				if m == nil || u == nil {
+				m, mi := c12Gated(mfn, ver, stop)
+				u, ui := c12Gated(ufn, ver, stop)
+				if len(m) == 0 || len(u) == 0 || mi || ui {
 					c.Unsure(s.what+" "+ver+" dispatch", hroot.Pos(), "cannot resolve the marshal/unmarshal function dispatched for this version")
 					continue
 				}
-				mr, _ := c12FieldUse(c12Closure([]*ssa.Function{m}, ver))
-				_, us := c12FieldUse(c12Closure([]*ssa.Function{u}, ver))
+				mr, _ := c12FieldUse(c12Closure(m, ver))
+				_, us := c12FieldUse(c12Closure(u, ver))
 				hr, _ := c12FieldUse(c12Closure([]*ssa.Function{hroot}, ver))
 				if len(mr) == 0 || len(us) == 0 || len(hr) == 0 {
-					c.Unsure(s.what+" "+ver+" field sets", m.Pos(), "empty field set extracted")
+					c.Unsure(s.what+" "+ver+" field sets", m[0].Pos(), "empty field set extracted")
 					continue
 				}
 				unh := c12Minus(mr, hr, s.cmpExempt...)
-				c.Check(s.what+" "+ver+" marshalled⊆hashed "+m.Name(), m.Pos(), len(unh) == 0,
+				c.Check(s.what+" "+ver+" marshalled⊆hashed "+names(m), m[0].Pos(), len(unh) == 0,
 					"fields written to the file but covered by no hash for this version: "+strings.Join(unh, ", "))
 				lost := c12Minus(us, mr, s.rtExempt...)
 				extra := c12Minus(mr, us, s.rtExempt...)
-				c.Check(s.what+" "+ver+" roundtrip "+m.Name()+"/"+u.Name(), u.Pos(), len(lost) == 0 && len(extra) == 0,
+				c.Check(s.what+" "+ver+" roundtrip "+names(m)+"/"+names(u), u[0].Pos(), len(lost) == 0 && len(extra) == 0,
 					"decode∘encode drops fields: restored but not written ["+strings.Join(lost, ", ")+"], written but not restored ["+strings.Join(extra, ", ")+"]")
 			}
 		}
@@ -2091,8 +709,71 @@ func c12L2(c *rt.Ctx) {
 
 type c12Flow struct {
 	cl   *c12Clo
-	memo map[*ssa.Parameter][2]bool
-	busy map[*ssa.Parameter]bool
+	memo map[ssa.Value][2]bool
+	busy map[ssa.Value]bool
+	fbsy map[ssa.Value]bool
+}
+
+// staticSites: the calls in the closure whose static callee is fn.
+func (f *c12Flow) staticSites(fn *ssa.Function) []ssa.CallInstruction {
+	var out []ssa.CallInstruction
+	for _, g := range f.cl.fns {
+		feas := f.cl.feasible(g)
+		for _, b := range g.Blocks {
+			if !feas[b] {
+				continue
+			}
+			for _, in := range b.Instrs {
+				if ci, ok := in.(ssa.CallInstruction); ok && ci.Common().StaticCallee() == fn {
+					out = append(out, ci)
+				}
+			}
+		}
+	}
+	return out
+}
+
+// bindings: the values bound to free variable fv where its function literal is created.
+func (f *c12Flow) bindings(fv *ssa.FreeVar) []ssa.Value {
+	fn := fv.Parent()
+	idx := -1
+	for i, x := range fn.FreeVars {
+		if x == fv {
+			idx = i
+		}
+	}
+	var out []ssa.Value
+	if idx < 0 || fn.Parent() == nil {
+		return nil
+	}
+	for _, in := range an.Instrs(fn.Parent(), false) {
+		if mc, ok := in.(*ssa.MakeClosure); ok && mc.Fn == ssa.Value(fn) && idx < len(mc.Bindings) {
+			out = append(out, mc.Bindings[idx])
+		}
+	}
+	return out
+}
+
+// cellSources: the values stored into the variable cell addr (a local, or a captured variable).
+func (f *c12Flow) cellSources(addr ssa.Value, d int) []ssa.Value {
+	if d > 4 {
+		return nil
+	}
+	switch x := addr.(type) {
+	case *ssa.Alloc:
+		if src := an.UniqueStore(x); src != nil {
+			return []ssa.Value{src}
+		}
+	case *ssa.FreeVar:
+		var out []ssa.Value
+		for _, b := range f.bindings(x) {
+			if _, isPtr := b.Type().Underlying().(*types.Pointer); isPtr {
+				out = append(out, f.cellSources(b, d+1)...)
+			}
+		}
+		return out
+	}
+	return nil
 }
 
 func c12IsSink(cc *ssa.CallCommon, v ssa.Value) bool {
@@ -2123,11 +804,45 @@ func c12IsSink(cc *ssa.CallCommon, v ssa.Value) bool {
 	return false
 }
 
+// c12BoundSink: fn is the bound-method wrapper of a hasher Put*/Append* method.
+func c12BoundSink(fn *ssa.Function) bool {
+	if fn == nil || !strings.HasSuffix(fn.Name(), "$bound") || len(fn.FreeVars) != 1 {
+		return false
+	}
+	name := strings.TrimSuffix(fn.Name(), "$bound")
+	if !strings.HasPrefix(name, "Put") && !strings.HasPrefix(name, "Append") {
+		return false
+	}
+	return strings.HasPrefix(an.TypeName(fn.FreeVars[0].Type()), c12HashWk+".")
+}
+
 func (f *c12Flow) funcsOf(v ssa.Value, d int) []*ssa.Function {
-	if d > 6 {
+	if d > 8 || f.fbsy[v] {
 		return nil
 	}
 	switch x := v.(type) {
+	case *ssa.Parameter:
+		idx := an.H07ParamIndex(x)
+		if idx < 0 {
+			return nil
+		}
+		f.fbsy[v] = true
+		defer delete(f.fbsy, v)
+		var out []*ssa.Function
+		for _, site := range f.staticSites(x.Parent()) {
+			if a := an.H07ArgFor(site, idx); a != nil {
+				out = append(out, f.funcsOf(a, d+1)...)
+			}
+		}
+		return out
+	case *ssa.FreeVar:
+		f.fbsy[v] = true
+		defer delete(f.fbsy, v)
+		var out []*ssa.Function
+		for _, b := range f.bindings(x) {
+			out = append(out, f.funcsOf(b, d+1)...)
+		}
+		return out
 	case *ssa.Function:
 		return []*ssa.Function{x}
 	case *ssa.MakeClosure:
@@ -2163,16 +878,18 @@ func (f *c12Flow) funcsOf(v ssa.Value, d int) []*ssa.Function {
 		}
 		return out
 	case *ssa.UnOp:
-		if al, ok := x.X.(*ssa.Alloc); ok && x.Op == token.MUL {
-			if src := an.UniqueStore(al); src != nil {
-				return f.funcsOf(src, d+1)
+		if x.Op == token.MUL {
+			var out []*ssa.Function
+			for _, src := range f.cellSources(x.X, 0) {
+				out = append(out, f.funcsOf(src, d+1)...)
 			}
+			return out
 		}
 	}
 	return nil
 }
 
-func (f *c12Flow) param(p *ssa.Parameter) (bool, bool) {
+func (f *c12Flow) param(p ssa.Value) (bool, bool) {
 	if r, ok := f.memo[p]; ok {
 		return r[0], r[1]
 	}
@@ -2234,6 +951,21 @@ func (f *c12Flow) from(seed ssa.Value) (sink, ret bool) {
 						callees = f.funcsOf(cc.Value, 0)
 					}
 				}
+				// a hasher method bound to a variable (`put := hh.PutUint64; put(x)`)
+				bound := false
+				for _, cal := range callees {
+					if c12BoundSink(cal) {
+						for _, a := range cc.Args {
+							if a == v {
+								bound = true
+							}
+						}
+					}
+				}
+				if bound {
+					sink = true
+					continue
+				}
 				internal := false
 				for _, cal := range callees {
 					if !c12InCluster(cal) || cal.Blocks == nil {
@@ -2264,6 +996,16 @@ func (f *c12Flow) from(seed ssa.Value) (sink, ret bool) {
 			case *ssa.Store:
 				if x.Val == v {
 					push(c12AddrBase(x.Addr))
+				}
+			case *ssa.MakeClosure:
+				// v is captured: it continues as the corresponding free variable of the function literal
+				if cfn, ok := x.Fn.(*ssa.Function); ok && c12InCluster(cfn) {
+					for i, b := range x.Bindings {
+						if b == v && i < len(cfn.FreeVars) {
+							s, _ := f.param(cfn.FreeVars[i])
+							sink = sink || s
+						}
+					}
 				}
 			case *ssa.Return:
 				ret = true
@@ -2297,8 +1039,236 @@ func c12AddrBase(a ssa.Value) ssa.Value {
 	return nil
 }
 
+// configOnly contexts: which values of hashDefinition's configOnly flag an instruction of the hash closure can run
+// under. The flag is followed through parameters, captured variables and negations; the context of a function is
+// the union of the contexts of its call sites (static calls, calls through function values, function literals).
+const (
+	c12CfgT = 1
+	c12CfgF = 2
+)
+
+type c12Cfg struct {
+	fl      *c12Flow
+	flag    ssa.Value
+	roots   map[*ssa.Function]bool
+	sites   map[*ssa.Function][]ssa.CallInstruction
+	val     map[ssa.Value]int // 1 = the flag, 2 = its negation, 3 = neither
+	valBusy map[ssa.Value]bool
+	ctx     map[*ssa.Function]int
+	ctxBusy map[*ssa.Function]bool
+	ctxUnk  map[*ssa.Function]bool
+	vals    map[*ssa.Function][]ssa.Value
+}
+
+func newC12Cfg(fl *c12Flow, hashDef *ssa.Function, more ...*ssa.Function) *c12Cfg {
+	g := &c12Cfg{fl: fl, roots: map[*ssa.Function]bool{hashDef: true}, sites: map[*ssa.Function][]ssa.CallInstruction{},
+		val: map[ssa.Value]int{}, valBusy: map[ssa.Value]bool{}, ctx: map[*ssa.Function]int{}, ctxBusy: map[*ssa.Function]bool{},
+		ctxUnk: map[*ssa.Function]bool{}, vals: map[*ssa.Function][]ssa.Value{}}
+	for _, m := range more {
+		g.roots[m] = true
+	}
+	for _, p := range hashDef.Params {
+		if b, ok := p.Type().Underlying().(*types.Basic); ok && b.Kind() == types.Bool {
+			g.flag = p
+		}
+	}
+	for _, fn := range fl.cl.fns {
+		feas := fl.cl.feasible(fn)
+		for _, b := range fn.Blocks {
+			if !feas[b] {
+				continue
+			}
+			for _, in := range b.Instrs {
+				ci, ok := in.(ssa.CallInstruction)
+				if !ok || ci.Common().IsInvoke() {
+					continue
+				}
+				var callees []*ssa.Function
+				if sc := ci.Common().StaticCallee(); sc != nil {
+					callees = []*ssa.Function{sc}
+				} else {
+					callees = fl.funcsOf(ci.Common().Value, 0)
+				}
+				for _, cal := range callees {
+					g.sites[cal] = append(g.sites[cal], ci)
+				}
+			}
+		}
+	}
+	return g
+}
+
+// kind: 1 = v carries the flag, 2 = its negation, 3 = unrelated.
+func (g *c12Cfg) kind(v ssa.Value, d int) int {
+	if g.flag == nil || d > 8 {
+		return 3
+	}
+	if v == g.flag {
+		return 1
+	}
+	if k, ok := g.val[v]; ok {
+		return k
+	}
+	if g.valBusy[v] {
+		return 3
+	}
+	if b, ok := v.Type().Underlying().(*types.Basic); !ok || b.Kind() != types.Bool {
+		return 3
+	}
+	g.valBusy[v] = true
+	defer delete(g.valBusy, v)
+	all := func(vs []ssa.Value) int {
+		if len(vs) == 0 {
+			return 3
+		}
+		k := g.kind(vs[0], d+1)
+		for _, x := range vs[1:] {
+			if g.kind(x, d+1) != k {
+				return 3
+			}
+		}
+		return k
+	}
+	k := 3
+	switch x := v.(type) {
+	case *ssa.Parameter:
+		// every call site passes the flag (with one polarity) or a boolean constant
+		idx := an.H07ParamIndex(x)
+		var args []ssa.Value
+		consts, bad := 0, false
+		for _, site := range g.sites[x.Parent()] {
+			a := an.H07ArgFor(site, idx)
+			if a == nil {
+				bad = true
+				break
+			}
+			if _, isC := c12ConstBool(a); isC {
+				consts++
+				continue
+			}
+			args = append(args, a)
+		}
+		switch {
+		case bad:
+		case len(args) > 0:
+			k = all(args)
+		case consts > 0:
+			k = 1
+		}
+	case *ssa.UnOp:
+		switch x.Op {
+		case token.NOT:
+			switch g.kind(x.X, d+1) {
+			case 1:
+				k = 2
+			case 2:
+				k = 1
+			}
+		case token.MUL:
+			k = all(g.fl.cellSources(x.X, 0))
+		}
+	case *ssa.ChangeType:
+		k = g.kind(x.X, d+1)
+	case *ssa.Phi:
+		k = all(x.Edges)
+	}
+	g.val[v] = k
+	return k
+}
+
+func (g *c12Cfg) flagVals(fn *ssa.Function) []ssa.Value {
+	if vs, ok := g.vals[fn]; ok {
+		return vs
+	}
+	var vs []ssa.Value
+	for _, p := range fn.Params {
+		if g.kind(p, 0) != 3 {
+			vs = append(vs, p)
+		}
+	}
+	for _, in := range an.Instrs(fn, false) {
+		if u, ok := in.(*ssa.UnOp); ok && u.Op == token.MUL && g.kind(u, 0) != 3 {
+			vs = append(vs, u)
+		}
+	}
+	g.vals[fn] = vs
+	return vs
+}
+
+func (g *c12Cfg) local(in ssa.Instruction) int {
+	fn, mask := in.Parent(), c12CfgT|c12CfgF
+	for _, v := range g.flagVals(fn) {
+		pos := g.kind(v, 0) == 1
+		for _, cd := range an.CondsOn(fn, v) {
+			if cd.Other != nil {
+				continue
+			}
+			for _, truth := range []bool{true, false} {
+				if c12DomBy(cd.Succ(truth), in.Block()) {
+					if truth == pos {
+						mask &= c12CfgT
+					} else {
+						mask &= c12CfgF
+					}
+				}
+			}
+		}
+	}
+	return mask
+}
+
+func (g *c12Cfg) fnCtx(fn *ssa.Function) (int, bool) {
+	if g.roots[fn] {
+		return c12CfgT | c12CfgF, true
+	}
+	if m, ok := g.ctx[fn]; ok {
+		return m, !g.ctxUnk[fn]
+	}
+	if g.ctxBusy[fn] {
+		return 0, true
+	}
+	g.ctxBusy[fn] = true
+	mask, known := 0, true
+	if len(g.sites[fn]) == 0 {
+		mask, known = c12CfgT|c12CfgF, false
+	}
+	var carrier *ssa.Parameter
+	for _, p := range fn.Params {
+		if carrier == nil && g.kind(p, 0) != 3 {
+			carrier = p
+		}
+	}
+	for _, site := range g.sites[fn] {
+		if carrier != nil {
+			if a := an.H07ArgFor(site, an.H07ParamIndex(carrier)); a != nil {
+				if cv, isC := c12ConstBool(a); isC {
+					if cv == (g.kind(carrier, 0) == 1) {
+						mask |= c12CfgT
+					} else {
+						mask |= c12CfgF
+					}
+					continue
+				}
+			}
+		}
+		m, k := g.at(site)
+		mask |= m
+		known = known && k
+	}
+	delete(g.ctxBusy, fn)
+	g.ctx[fn] = mask
+	g.ctxUnk[fn] = !known
+	return mask, known
+}
+
+// at returns the flag values under which the instruction can run.
+func (g *c12Cfg) at(in ssa.Instruction) (int, bool) {
+	m, known := g.fnCtx(in.Parent())
+	return m & g.local(in), known
+}
+
 func c12L1(c *rt.Ctx) {
-	c.Rule("L1", 49, func() {
+	c.Rule("L1", 50, func() {
 		pkg := c.Pkg("cluster")
 		cur, ok := pkg.Types.Scope().Lookup("currentVersion").(*types.Const)
 		if !ok || cur.Val().Kind() != constant.String {
@@ -2309,11 +1279,8 @@ func c12L1(c *rt.Ctx) {
 			c.Bail("currentVersion %s is not in supportedVersions", ver)
 		}
 		cl := c12Closure([]*ssa.Function{c.Fn("cluster.hashDefinition"), c.Fn("cluster.hashLock")}, ver)
-		fl := &c12Flow{cl: cl, memo: map[*ssa.Parameter][2]bool{}, busy: map[*ssa.Parameter]bool{}}
+		fl := &c12Flow{cl: cl, memo: map[ssa.Value][2]bool{}, busy: map[ssa.Value]bool{}, fbsy: map[ssa.Value]bool{}}
 		// flowing reads per field
-		type rd struct {
-			in ssa.Instruction
-		}
 		flowing := map[string][]ssa.Instruction{}
 		for _, fn := range cl.fns {
 			feas := cl.feasible(fn)
@@ -2341,27 +1308,36 @@ func c12L1(c *rt.Ctx) {
 				}
 			}
 		}
-		cfgEdges := func(in ssa.Instruction) (known, underTrue, underFalse bool) {
-			fn := in.Parent()
-			if len(fn.Params) < 3 || an.TypeName(fn.Params[0].Type()) != c12P+"Definition" {
-				return false, false, false
-			}
-			p := fn.Params[2]
-			if b, ok := p.Type().Underlying().(*types.Basic); !ok || b.Kind() != types.Bool {
-				return false, false, false
-			}
-			for _, cd := range an.CondsOn(fn, p) {
-				if cd.Other != nil {
-					continue
+		cfg := newC12Cfg(fl, c.Fn("cluster.hashDefinition"), c.Fn("cluster.hashLock"))
+		// inside the lock hash the definition is hashed in full: every constant handed on as the configOnly flag
+		// within the hash closure means "not config-only"
+		{
+			full, n, pos := true, 0, token.NoPos
+			for _, fn := range cl.fns {
+				for _, p := range fn.Params {
+					k := cfg.kind(p, 0)
+					if k == 3 {
+						continue
+					}
+					for _, site := range cfg.sites[fn] {
+						if a := an.H07ArgFor(site, an.H07ParamIndex(p)); a != nil {
+							if cv, isC := c12ConstBool(a); isC {
+								n++
+								if cv == (k == 1) {
+									full, pos = false, site.Pos()
+								} else if !pos.IsValid() {
+									pos = site.Pos()
+								}
+							}
+						}
+					}
 				}
-				if c12DomBy(cd.Succ(true), in.Block()) {
-					underTrue = true
-				}
-				if c12DomBy(cd.Succ(false), in.Block()) {
-					underFalse = true
-				}
 			}
-			return true, underTrue, underFalse
+			if n == 0 {
+				c.Unsure(c12P+"Lock.Definition hashed in full", token.NoPos, "no constant configOnly argument found in the lock hash closure")
+			} else {
+				c.Check(c12P+"Lock.Definition hashed in full", pos, full, "the lock hash covers the definition config-only (ENRs and signatures are not bound by the lock hash)")
+			}
 		}
 		for fi, fam := range [][]string{c12DefFamily, c12LockFamily} {
 			tag := "definition_hash"
@@ -2407,25 +1383,22 @@ func c12L1(c *rt.Ctx) {
 						continue
 					}
 					good, why, unsure := true, "", false
-					both := false
+					union := 0
 					for _, in := range fr {
-						known, ut, uf := cfgEdges(in)
+						mask, known := cfg.at(in)
 						if !known {
 							unsure = true
-							continue
 						}
-						if cv == "-" && !uf {
+						union |= mask
+						if cv == "-" && mask&c12CfgT != 0 {
 							good, why = false, "field is excluded from the config hash (config_hash:\"-\") but is hashed outside the !configOnly edge"
 						}
-						if !ut && !uf {
-							both = true
-						}
 					}
-					if cv != "-" && !both {
+					if cv != "-" && union != c12CfgT|c12CfgF {
 						good, why = false, "field belongs to the config hash but is not hashed on both configOnly edges"
 					}
-					if unsure && good {
-						c.Unsure(key+" hashed", fr[0].Pos(), "field is hashed in a function without a configOnly parameter")
+					if unsure {
+						c.Unsure(key+" hashed", fr[0].Pos(), "the configOnly context of a function hashing this field cannot be resolved (no call site found)")
 						continue
 					}
 					c.Check(key+" hashed", fr[0].Pos(), good, why)
@@ -2591,4 +1564,59 @@ var c12Mutants = []Mutant{
 	{ID: "C12-L6-valuefunc-signs-definition-hash", File: "cluster/eip712sigs.go", Expect: "L6|eip712OperatorConfigHash ValueFunc",
 		Old: "\t\t\t\tField: \"operator_config_hash\",\n\t\t\t\tType:  eip712.PrimitiveString,\n\t\t\t\tValueFunc: func(definition Definition, _ Operator) any {\n\t\t\t\t\treturn to0xHex(definition.ConfigHash)",
 		New: "\t\t\t\tField: \"operator_config_hash\",\n\t\t\t\tType:  eip712.PrimitiveString,\n\t\t\t\tValueFunc: func(definition Definition, _ Operator) any {\n\t\t\t\t\treturn to0xHex(definition.DefinitionHash)"},
+	// --- added with the path-based (refactor-robust) formulation: mechanisms it could have weakened
+	{ID: "C12-L3-skip-first-validator", File: "cluster/lock.go", Expect: "L3|validator loop",
+		Old: "\tfor i, val := range l.Validators {\n\t\tif len(val.PubShares) != len(l.Operators) {",
+		New: "\tfor i, val := range l.Validators[1:] {\n\t\tif len(val.PubShares) != len(l.Operators) {"},
+	{ID: "C12-L3-break-after-first-validator", File: "cluster/lock.go", Expect: "L3|validator loop",
+		Old: "\t\tpubkeys = append(pubkeys, shares...)\n\t}",
+		New: "\t\tpubkeys = append(pubkeys, shares...)\n\n\t\tbreak\n\t}"},
+	{ID: "C12-L3-aggregate-first-share-only", File: "cluster/lock.go", Expect: "L3|aggregate signature over",
+		Old: "\t\tpubkeys = append(pubkeys, shares...)\n",
+		New: "\t\tpubkeys = append(pubkeys, shares[0])\n"},
+	{ID: "C12-L3-aggregate-last-validator-only", File: "cluster/lock.go", Expect: "L3|aggregate signature over",
+		Old: "\t\tpubkeys = append(pubkeys, shares...)\n",
+		New: "\t\tpubkeys = append(pubkeys[:0], shares...)\n"},
+	{ID: "C12-L3-lockhash-compared-with-itself", File: "cluster/lock.go", Expect: "L3|compare lock hash",
+		Old: "\tif !bytes.Equal(l.LockHash, lockHash[:]) {",
+		New: "\tif !bytes.Equal(lockHash[:], lockHash[:]) {"},
+	{ID: "C12-L3-aggregate-over-stored-hash", File: "cluster/lock.go", Expect: "L3|aggregate signature over",
+		Old: "\terr = tbls.VerifyAggregate(pubkeys, sig, hash[:])",
+		New: "\t_ = hash\n\terr = tbls.VerifyAggregate(pubkeys, sig, l.LockHash)"},
+	{ID: "C12-L3-mixed-check-off-by-direction", File: "cluster/definition.go", Expect: "L3|all-or-none",
+		Old: "\tif noOpSigs > 0 && noOpSigs != len(d.Operators) {",
+		New: "\tif noOpSigs > 0 && noOpSigs > len(d.Operators) {"},
+	{ID: "C12-L3-operator-sig-of-first-operator", File: "cluster/definition.go", Expect: "L3|operator config signature",
+		Old: "verifySigOrERC1271(eth1, o.Address, operatorConfigHashDigest, o.ConfigSignature)",
+		New: "verifySigOrERC1271(eth1, o.Address, operatorConfigHashDigest, d.Operators[0].ConfigSignature)"},
+	{ID: "C12-L3-marshal-switch-misses-v1x11", File: "cluster/definition.go", Expect: "L3|cluster.Definition.MarshalJSON covers",
+		Old: "\tcase isAnyVersion(d2.Version, v1_10, v1_11):\n\t\treturn marshalDefinitionV1x10to11(d2)",
+		New: "\tcase isAnyVersion(d2.Version, v1_10):\n\t\treturn marshalDefinitionV1x10to11(d2)"},
+	{ID: "C12-L4-store-unchecked-share", File: "cmd/combine/combine.go", Expect: "L4|keystore holds",
+		Old: "\t\tcombinedKeys = append(combinedKeys, secret)\n",
+		New: "\t\tcombinedKeys = append(combinedKeys, pkSet[0])\n"},
+	{ID: "C12-L4-compare-previous-validator", File: "cmd/combine/combine.go", Expect: "L4|index binding",
+		Old: "\t\tval := lock.Validators[valIdx]",
+		New: "\t\tval := lock.Validators[max(valIdx-1, 0)]"},
+	{ID: "C12-L5-hashes-ignored-for-empty-lock", File: "cluster/load.go", Expect: "L5|LoadClusterLock cluster.Lock.VerifyHashes",
+		Old: "\tif err := lock.VerifyHashes(); err != nil && !noVerify {",
+		New: "\tif err := lock.VerifyHashes(); err != nil && !noVerify && len(lock.Validators) > 0 {"},
+	{ID: "C12-L5-dkg-verify-only-when-flag", File: "dkg/disk.go", Expect: "L5|dkg.loadDefinition cluster.Definition.VerifyHashes",
+		Old: "\tif err := def.VerifyHashes(); err != nil && !conf.NoVerify {",
+		New: "\tif err := error(nil); conf.NoVerify && def.VerifyHashes() != nil && err != nil {"},
+	{ID: "C12-L1-creator-sig-on-config-edge", File: "cluster/ssz.go", Expect: "L1|Creator.ConfigSignature",
+		Old: "\t\tif !configOnly {\n\t\t\t// Field (1) 'ConfigSignature' List[Bytes65, 32]\n\t\t\tif err := putK1SigList(hh, d.Creator.ConfigSignature, sszMaxK1Sigs, \"creator_config_signature\"); err != nil {",
+		New: "\t\tif configOnly {\n\t\t\t// Field (1) 'ConfigSignature' List[Bytes65, 32]\n\t\t\tif err := putK1SigList(hh, d.Creator.ConfigSignature, sszMaxK1Sigs, \"creator_config_signature\"); err != nil {"},
+	{ID: "C12-L1-lock-hashes-config-only-definition", File: "cluster/ssz.go", Expect: "L1|Lock.Definition hashed in full",
+		Old: "\tif err := defHashFunc(l.Definition, hh, false); err != nil {",
+		New: "\tif err := defHashFunc(l.Definition, hh, true); err != nil {"},
+	{ID: "C12-L6-enr-digest-first-operator", File: "cluster/definition.go", Expect: "L6|operator enr digest",
+		Old: "digestEIP712(eip712ENR, d, o)",
+		New: "digestEIP712(eip712ENR, d, d.Operators[0])"},
+	{ID: "C12-L6-digest-error-ignored", File: "cluster/definition.go", Expect: "L6|operator enr digest",
+		Old: "\t\tenrDigest, err := digestEIP712(eip712ENR, d, o)\n\t\tif err != nil {\n\t\t\treturn err\n\t\t}\n",
+		New: "\t\tenrDigest, _ := digestEIP712(eip712ENR, d, o)\n"},
+	{ID: "C12-L2-lock-v1x8-marshal-drops-registration", File: "cluster/distvalidator.go", Expect: "L2|lock v1.8.0 roundtrip",
+		Old: "\t\t\tBuilderRegistration: registrationToJSON(dv.BuilderRegistration),\n\t\t\tPartialDepositData:  depositDataArrayToJSON(dv.PartialDepositData),\n",
+		New: "\t\t\tPartialDepositData:  depositDataArrayToJSON(dv.PartialDepositData),\n"},
 }
